@@ -30,14 +30,20 @@ THEOREMS = [
     'C18.solve_ends_fixed', 'C18.solve_interior', 'C18.recompose_decompose',
     'C18.gamma_reload_state', 'C18.gamma_reload_conversions', 'C18.vec4to3_spec',
     'C18.term_optional_args', 'C18.total_call_is_sum', 'C18.density_optional_args', 'C18.profile_setters_frame',
+    'C18.guards_scale_free', 'C18.posToA123_scale', 'C18.inPlaneOk_scale', 'C18.xvectOk_scale', 'C18.model_units_switch', 'C18.E_scale',
+    'C18.solve_not_raises_of_descent', 'C18.halfwidth_continuum_partial', 'C18.halfwidth_continuum_real',
 ]
 PARTIAL = {
-    'solve never raises the total energy': 'a property of scipy.optimize.minimize on the run at hand, not of the model (the '
-        'optimiser output is an arbitrary list in the model): checked on the real code by the search (Powell, Nelder-Mead, '
-        'L-BFGS-B, BFGS on energies bounded below; E_after <= E_before, also for a second solve from the solution)',
-    'classical half-width': 'numerical clause (needs log, arctan, the continuum limit): the search scans the total energy over '
+    'solve never raises the total energy': 'reduced by solve_not_raises_of_descent to the descent property of the minimiser (f(result) <= '
+        'f(start) for the function handed to it: the theorem shows f(start) is the energy of the guess and f(result) the energy of the '
+        'stored solution, for ANY energy functional); that scipy.optimize.minimize has this property on the run at hand is checked on '
+        'the real code by the search (Powell, Nelder-Mead, L-BFGS-B, BFGS on energies bounded below; E_after <= E_before, for repeated '
+        'solves with other guesses / grids, in non-default working units)',
+    'classical half-width': 'halfwidth_continuum_partial / halfwidth_continuum_real prove the clause for the CONTINUUM functional pi g0 w - '
+        '(K b^2/4 pi) ln w + c (lowest at K b^2/(4 pi^2 g0) for the real logarithm); that the discrete sums of the code approach this '
+        'functional is numerical (needs arctan, the continuum limit): the search scans the total energy over '
         'normalised arctangent profiles for a sinusoidal misfit law and requires |w_min/zeta - 1| <= 1.5 (zeta/X) ln(X/zeta) + '
-        '(dx/zeta)^2 + 0.02 (window [-X, X], grid dx <= b/10, zeta = K b^2/(4 pi^2 g0)); no theorem',
+        '(dx/zeta)^2 + 0.02 (window [-X, X], grid dx <= b/10, zeta = K b^2/(4 pi^2 g0))',
     'interpolant reproduces its nodes': 'hypothesis `hf` of E_interpolates/delta_interpolates (what scipy Rbf with smooth=0 '
         'does up to eps*cond of its linear system): checked on the real code by the search at every sampled shift',
     'delta on the lattice lines': 'delta(a1, a2) at integer a1 or a2 evaluates the interpolant at 0 or 1 depending on the side; '
@@ -88,7 +94,23 @@ VECTS = [
     ([0.0, 1.0, 0.0], [0.0, 0.0, 1.0], [[3.0, 0.0, 0.0], [-1.5, 2.598076211353316, 0.0], [0.0, 0.0, 5.0]], 'hex-prism'),
     ([1.0, 0.0, 0.0], [0.0, 0.0, 1.0], [[3.0, 0.0, 0.0], [0.0, 4.0, 0.0], [-1.25, 0.0, 5.0]], 'mono'),
     ([1.0, 0.0, 1.0], [0.0, 1.0, -1.0], [[2.4, 1.8, 0.0], [-1.8, 2.4, 0.5], [0.25, -0.5, 4.0]], 'tri-rot'),
+    # LEFT-handed cells (negative determinant: an axis-permuted orthorhombic cell, a mirrored triclinic one) and a cell
+    # with a NON-ZERO origin (see ORIGINS): shift vectors are displacements, the origin must not enter anywhere
+    ([1.0, 0.0, 0.0], [0.0, 1.0, 0.0], [[3.0, 0.0, 0.0], [0.0, 0.0, 5.0], [0.0, 4.0, 0.0]], 'lh-ortho'),
+    ([1.0, 0.5, 0.0], [0.0, 1.0, 1.0], [[2.4, 1.8, 0.0], [-1.8, 2.4, 0.5], [-0.25, 0.5, -4.0]], 'lh-tri'),
+    ([1.0, 0.0, 0.0], [0.5, 1.0, 0.0], [[3.0, 0.0, 0.0], [1.0, 2.5, 0.0], [0.5, -0.75, 4.0]], 'tri-origin'),
 ]
+ORIGINS = {'tri-origin': [10.0, -20.0, 5.5]}
+
+
+def mk_box(spec):
+    """the atomman Box of a spec (None: no box given, Cartesian shift vectors)."""
+    import atomman as am
+    if spec['box'] is None:
+        return None
+    b = spec['box']
+    org = spec.get('origin')
+    return am.Box(avect=b[0], bvect=b[1], cvect=b[2], **({} if org is None else {'origin': org}))
 
 
 class Raised:
@@ -174,7 +196,7 @@ def gen_gamma_spec(rng, regime=None, vects=None, grid=None, dup=None, delta=None
         a1, a2, E, D = ([t[i] for i in order] for t in (a1, a2, E, D))
     use_delta = rng.random() < 0.4 if delta is None else delta
     return {'regime': regime, 'n1': n1, 'n2': n2, 'dup': dup, 'a1vect': list(a1vect), 'a2vect': list(a2vect),
-            'box': box, 'tag': tag, 'a1': a1, 'a2': a2, 'E': E, 'delta': D if use_delta else None}
+            'box': box, 'origin': ORIGINS.get(tag.split('~')[0]), 'tag': tag, 'a1': a1, 'a2': a2, 'E': E, 'delta': D if use_delta else None}
 
 
 def vec3(v):
@@ -187,10 +209,7 @@ def vec3(v):
 def mk_gamma(spec):
     import atomman as am
     np = _np()
-    box = None
-    if spec['box'] is not None:
-        b = spec['box']
-        box = am.Box(avect=b[0], bvect=b[1], cvect=b[2])
+    box = mk_box(spec)
     return am.defect.GammaSurface(a1vect=spec['a1vect'], a2vect=spec['a2vect'], a1=np.array(spec['a1']),
                                   a2=np.array(spec['a2']), E_gsf=np.array(spec['E']), box=box,
                                   delta=None if spec['delta'] is None else np.array(spec['delta']))
@@ -315,8 +334,15 @@ RULE = ('gamma surfaces: grids n1 x n2 in {2..32} incl. strongly anisotropic one
         'exact oracle and a fresh object); 3-index and 4-index (Miller-Bravais) shift vectors; duplicated a=1 edge in both / one '
         'direction / a hair below 1; rows in grid or shuffled order; 2-D query arrays; pos= / x=,y= together with a1vect=/a2vect=; '
         'disldensity on non-uniform grids; arctangent grids given by two of (xmax, xstep, xnum) as decimal literals with the '
-        'float quotient just below / above the integer; distinct = distinct canonical driver line / oracle case; non-trivial = '
-        'non-error reply with at least one non-zero input')
+        'float quotient just below / above the integer; left-handed cells and a cell with a non-zero origin; the whole geometry x 2^k '
+        '(|k| <= 200) in the correspondence of the conversions and their refusals; CROSS-CUTTING cases (op xcut): working units SI / '
+        'named / random seeds throughout, and CHANGED between model() and load / between construction and evaluation; constructor, '
+        'setter, solve() and method arguments edited by the caller afterwards, results overwritten, model() trees edited, default '
+        'arguments shared; lists / tuples / numpy scalars / int32 / int64 / float32 / 0-d / (n,1) / (1,n) / rank-3 / strided / '
+        'Fortran / read-only inputs; lengths x 2^k and energies x 2^j (|k|, |j| <= 200) with refusals decided by relative geometry; '
+        'falsy-but-valid values through constructor / setters / solve / load; positional calls in the documented order; models from '
+        'str / path / binary handle / BytesIO; one object solved repeatedly with other guesses; twin objects read in different orders; '
+        'distinct = distinct canonical driver line / oracle case; non-trivial = non-error reply with at least one non-zero input')
 
 
 def _ask(ctx, line, key, info):
@@ -579,18 +605,24 @@ def _conv_case(ctx, spec, g, rng, obj=False):
                 ctx.disagree('pos_to_a12', f'pos_to_a12 ({name}) implementation {r}, model {out[:60]}', dict(rep, pos=PP.tolist()))
         elif not cm.allclose(impl, cm.unfrs(out), 1e-9, 1e-10):
             ctx.disagree('pos_to_a12', f'pos_to_a12 ({name}) differs ({spec["tag"]})', dict(rep, pos=PP.tolist()))
-    off = pos[0] + np.cross(A1, A2) * rng.choice([0.5, -1.0, 1e-3])
-    r = call(g.pos_to_a12, off)
-    impl = r.cls if isinstance(r, Raised) else 'ok'
-    out = ctx.driver.ask(f'{_gl(obj, "p2a", head)} 1 ' + cm.frs(off))
-    ctx.stats.case('p2a:offplane', (spec['tag'], tuple(off)))
-    if (impl == 'err:assert') != (out == 'err:assert') or (impl not in ('ok', 'err:assert')):
-        ctx.disagree('pos_to_a12:assert', f'out-of-plane position: implementation {r if isinstance(r, Raised) else impl}, '
-                     f'model {out[:60]}', dict(rep, pos=off.tolist()))
+    cvec = np.cross(A1, A2)
+    cn = float(np.linalg.norm(cvec))
+    # off the plane by a multiple of A1 x A2 | by h sqrt|A1 x A2| along the normal, h well above / below the tolerance 1e-6 max(1, |a|)
+    for off in (pos[0] + cvec * rng.choice([0.5, -1.0, 1e-3]), pos[0] + cvec / cn * math.sqrt(cn) * rng.choice([1e-4, -3e-5, 0.25]),
+                pos[0] + cvec / cn * math.sqrt(cn) * rng.choice([1e-8, -1e-9, 1e-7])):
+        r = call(g.pos_to_a12, off)
+        impl = r.cls if isinstance(r, Raised) else 'ok'
+        out = ctx.driver.ask(f'{_gl(obj, "p2a", head)} 1 ' + cm.frs(off))
+        ctx.stats.case('p2a:offplane', (spec['tag'], tuple(off)))
+        if (impl == 'err:assert') != (out == 'err:assert') or (impl not in ('ok', 'err:assert')):
+            ctx.disagree('pos_to_a12:assert', f'out-of-plane position: implementation {r if isinstance(r, Raised) else impl}, '
+                         f'model {out[:60]}', dict(rep, pos=off.tolist()))
     # xy conversions with the default (xvect=None -> Cartesian a1vect, `xyDefaultX` of the model) and with
     # alternative in-plane x axes; an out-of-plane axis must be refused by both directions
     nn = float(np.linalg.norm(np.cross(A1, A2)))
-    for xname, X in (('default', None), ('a2', A2.copy()), ('mix', A1 * 0.5 - A2 * 1.5), ('offplane', A1 + np.cross(A1, A2))):
+    for xname, X in (('default', None), ('a2', A2.copy()), ('mix', A1 * 0.5 - A2 * 1.5), ('offplane', A1 + np.cross(A1, A2)),
+                     ('tilted', A1 + cvec / cn * float(np.linalg.norm(A1)) * rng.choice([1e-5, 0.3, -1e-3])),
+                     ('hair', A2 - A1 + cvec / cn * float(np.linalg.norm(A2 - A1)) * rng.choice([1e-11, -1e-12]))):
         Xv = A1 if X is None else X
         nx, ny, nz = _norms_spec(A1, A2, Xv) if obj else _norms(g, Xv)
         xtok = 'none' if X is None else 'some ' + cm.frs(Xv)
@@ -677,7 +709,7 @@ def reload_gamma(g, spec, how):
     """load `spec` into the EXISTING object `g` the way `how` says; returns the DataModelDict used (or None)."""
     import atomman as am
     np = _np()
-    box = None if spec['box'] is None else am.Box(avect=spec['box'][0], bvect=spec['box'][1], cvect=spec['box'][2])
+    box = mk_box(spec)
     if how['kind'] == 'set':
         g.set(spec['a1vect'], spec['a2vect'], np.array(spec['a1']), np.array(spec['a2']), np.array(spec['E']), box=box,
               delta=None if spec['delta'] is None else np.array(spec['delta']))
@@ -803,10 +835,24 @@ def _gseq_case(ctx, rng, specs, hows):
 SYSTEMS = ['iso-edge', 'iso-screw', 'iso-mixed-rot', 'cubic-edge', 'cubic-mixed-fcc', 'cubic-yz', 'hex-basal-edge']
 
 
-def mk_volterra(name):
-    """(volterra solution, shift-vector setting) of a named configuration (deterministic)."""
+def mk_volterra(name, LU=1.0, PU=1.0):
+    """(volterra solution, shift-vector setting) of a named configuration (deterministic).  `LU`, `PU`: magnitude of
+    one angstrom / one eV/angstrom^3 in the numbers to use (the iso-* systems only: lengths x LU, moduli x PU)."""
     import atomman as am
     np = _np()
+    if (LU, PU) != (1.0, 1.0):
+        C = am.ElasticConstants(E=1.2 * PU, nu=0.3)
+        if name == 'iso-edge':
+            return (am.defect.solve_volterra_dislocation(C, burgers=[2.5 * LU, 0, 0], transform=np.eye(3)),
+                    ([2.5 * LU, 0.0, 0.0], [0.0, 0.0, 4.0 * LU], None, 'rect-xz'))
+        if name == 'iso-screw':
+            return (am.defect.solve_volterra_dislocation(C, burgers=[0, 0, 3.0 * LU], transform=np.eye(3)),
+                    ([0.0, 0.0, 3.0 * LU], [2.0 * LU, 0.0, 0.0], None, 'rect-zx'))
+        if name == 'iso-mixed-rot':
+            T = np.array([[0.8, 0.0, 0.6], [0.0, 1.0, 0.0], [-0.6, 0.0, 0.8]])
+            return (am.defect.solve_volterra_dislocation(C, burgers=[2.0 * LU, 0, 0], transform=T),
+                    ([2.0 * LU, 0.0, 0.0], [0.5 * LU, 0.0, 3.0 * LU], None, 'oblique-xz'))
+        raise ValueError(name)
     if name.startswith('iso'):
         C = am.ElasticConstants(E=1.2, nu=0.3)
     elif name.startswith('hex'):
@@ -1447,6 +1493,16 @@ def correspond(ctx):
         if rnd is not None:
             guarded(ctx, 'nearest', rep, _nearest_case, ctx, spec, g, rnd, gen_queries(rng, spec, ctx.n(4, 10), F(0), F(0)), 'delta')
         guarded(ctx, 'conv', rep, _conv_case, ctx, spec, g, rng)
+    # the conversions and their two refusals with the whole geometry scaled by 2^k (model: `guards_scale_free`)
+    for it in range(ctx.n(8, 40)):
+        k = rng.choice([-200, -100, -33, -10, 10, 33, 100, 200])
+        spec = scale_spec(gen_gamma_spec(rng, regime='dyadic', vects=VECTS[it % len(VECTS)], grid=(4, 4), dup=False, delta=False), 2.0 ** k, 1.0)
+        spec['tag'] += f'*2^{k}'
+        gs_ = call(mk_gamma, spec)
+        if isinstance(gs_, Raised):
+            ctx.disagree('conv:scaled', f'GammaSurface in a cell scaled by 2^{k}: {gs_}', {'op': 'conv', 'spec': spec})
+            continue
+        guarded(ctx, 'conv', {'op': 'conv', 'spec': spec}, _conv_case, ctx, spec, gs_, rng)
     ctx.extra['t_gamma_s'] = round(time.time() - t0, 2)
     # ---- ONE GammaSurface object under reloads: query -> set()/model(model=) with other vectors, box, data -> query
     t0 = time.time()
@@ -1538,15 +1594,23 @@ def o_axes(A1, A2, X):
     """unit plotting axes (floats) for the in-plane x axis X: x^ = X/|X|, y^ = (N x X)/|N x X|, N = A1 x A2."""
     N = fcross(A1, A2)
     Y = fcross(N, X)
-    nx = math.sqrt(float(fdot(X, X)))
-    ny = math.sqrt(float(fdot(Y, Y)))
-    return [float(t) / nx for t in X], [float(t) / ny for t in Y]
+    (mx, nx), (my, ny) = _fnorm(X), _fnorm(Y)
+    return [float(t / mx) / nx for t in X], [float(t / my) / ny for t in Y]
+
+
+def _fnorm(v):
+    """(m, n) with |v| = m * n for an exact vector v: m = largest |component| (a Fraction), n = norm of v / m in double
+    (no overflow / underflow whatever the magnitude of v)."""
+    m = max(abs(t) for t in v)
+    return m, math.sqrt(sum(float(t / m) ** 2 for t in v))
+
 
 def o_xy(A1, A2, X, pos):
     """plotting coordinates of an exact position: x = pos . X/|X|, y = pos . (N x X)/|N x X|."""
     N = fcross(A1, A2)
     Y = fcross(N, X)
-    return (float(fdot(pos, X)) / math.sqrt(float(fdot(X, X))), float(fdot(pos, Y)) / math.sqrt(float(fdot(Y, Y))))
+    (mx, nx), (my, ny) = _fnorm(X), _fnorm(Y)
+    return (float(fdot(pos, X) / mx) / nx, float(fdot(pos, Y) / my) / ny)
 
 
 def o_xvect(A1, A2, xname):
@@ -1637,8 +1701,10 @@ def chk_gseq(ctx, case):
         hist += f' -> {spec["tag"]} {spec["n1"]}x{spec["n2"]}'
 
 
-def _gamma_clauses(ctx, top, case, g, when, fresh=None, loose=False):
-    """the gamma-surface clauses on the object `g`, which is supposed to hold `case['spec']` now."""
+def _gamma_clauses(ctx, top, case, g, when, fresh=None, loose=False, unit=(1.0, 1.0)):
+    """the gamma-surface clauses on the object `g`, which is supposed to hold `case['spec']` now.
+    `unit` = (length, energy per area) magnitudes the data are expressed in (1, 1: numbers of order one): every absolute
+    tolerance is a multiple of them, so that the same clauses are decided at any scale / in any working units."""
     import atomman as am
     np = _np()
     spec = case['spec']
@@ -1646,10 +1712,11 @@ def _gamma_clauses(ctx, top, case, g, when, fresh=None, loose=False):
     def bad(key, what):
         ctx.violate('gamma:' + key, f'{when}{what} [{spec["tag"]} grid {spec["n1"]}x{spec["n2"]} dup={spec["dup"]}]', top)
 
+    uL, uE = float(unit[0]), float(unit[1])
     # the state the object reports: shift vectors, box, plane normal, data
     A1, A2 = o_cart(spec)
     N_ = fcross(A1, A2)
-    nn_ = math.sqrt(float(fdot(N_, N_)))
+    mN_, nN_ = _fnorm(N_)
     st_ = call(lambda: (np.asarray(g.a1vect, dtype=float), np.asarray(g.a2vect, dtype=float), np.asarray(g.box.vects, dtype=float),
                         np.asarray(g.planenormal, dtype=float), g.data))
     ctx.stats.case('s:state', (spec['tag'], spec['n1'], spec['n2'], when[:80]))
@@ -1657,8 +1724,8 @@ def _gamma_clauses(ctx, top, case, g, when, fresh=None, loose=False):
         bad('state', f'a1vect / a2vect / box / planenormal / data {st_}')
         return
     Bw = np.eye(3) if spec['box'] is None else np.array(spec['box'], dtype=float)
-    w = (_cmp(st_[0], vec3(spec['a1vect']), 1e-14, 0) or _cmp(st_[1], vec3(spec['a2vect']), 1e-14, 0) or _cmp(st_[2], Bw, 1e-13, 1e-14)
-         or _cmp(st_[3], [float(t) / nn_ for t in N_], 1e-12, 1e-13)
+    w = (_cmp(st_[0], vec3(spec['a1vect']), 1e-14, 0) or _cmp(st_[1], vec3(spec['a2vect']), 1e-14, 0) or _cmp(st_[2], Bw, 1e-13, 1e-14 * uL)
+         or _cmp(st_[3], [float(t / mN_) / nN_ for t in N_], 1e-12, 1e-13)
          or _cmp(st_[4].a1.values, spec['a1'], 1e-14, 1e-15) or _cmp(st_[4].a2.values, spec['a2'], 1e-14, 1e-15)
          or _cmp(st_[4].E_gsf.values, spec['E'], 1e-13 if loose else 0, 0)
          or (('delta' in st_[4]) != (spec['delta'] is not None) and 'plane-separation column lost/kept')
@@ -1670,14 +1737,14 @@ def _gamma_clauses(ctx, top, case, g, when, fresh=None, loose=False):
         r = call(g.delta, a1=0.25, a2=0.375)
         if not isinstance(r, Raised):
             bad('state', f'delta(a1=0.25, a2=0.375) = {r!r} although the object holds no plane-separation data')
-    scale = max(1.0, max(abs(v) for v in spec['E']))
-    L = max(1.0, max(abs(float(t)) for t in A1 + A2))
+    scale = max(uE, max(abs(v) for v in spec['E']))
+    L = max(uL, max(abs(float(t)) for t in A1 + A2))
     cond = o_fit_cond(spec)
     # interpolation: backward-stable solve of the Rbf system, error <= c*eps*cond; evaluation at a point moved by
     # an ulp changes the value by <= Lipschitz*ulp, covered by 1e-9
     tolE = 256 * EPS * cond * scale + 1e-9 * scale
     has_d = spec['delta'] is not None
-    dscale = max(1.0, max(abs(v) for v in spec['delta'])) if has_d else 1.0
+    dscale = max(uL, max(abs(v) for v in spec['delta'])) if has_d else uL
     tolD = 256 * EPS * cond * dscale + 1e-9 * dscale
     periods = case['periods']
     ns = len(spec['a1'])
@@ -1897,7 +1964,7 @@ def _gamma_clauses(ctx, top, case, g, when, fresh=None, loose=False):
              or _cmp(g2.a1vect, vec3(spec['a1vect']), 1e-14, 0) or _cmp(g2.a2vect, vec3(spec['a2vect']), 1e-14, 0)
              or _cmp(g2.box.vects, g.box.vects, 1e-12, 1e-14 * L)
              or (('delta' in g2.data) != has_d and 'plane-separation data lost/invented')
-             or (has_d and _cmp(g2.data.delta.values, spec['delta'], 1e-12, 1e-14)))
+             or (has_d and _cmp(g2.data.delta.values, spec['delta'], 1e-12, 1e-14 * uL)))
         if w:
             bad('model', f'data-model round trip ({form}, {lu}, {eu}) changes the data: {w}')
             continue
@@ -2037,11 +2104,14 @@ def _printed_energies(pn, kw, unit=None):
     return out
 
 
-def _check_terms(ctx, case, bad, pn, g, K, b, T, A1, A2, st, x, d, mode, when, scale, stored=None):
+def _check_terms(ctx, case, bad, pn, g, K, b, T, A1, A2, st, x, d, mode, when, scale, stored=None, eunit=1.0, punit=None):
     """all six terms and the total of the real object `pn` against the oracle for settings `st`, the methods being
     CALLED with the subset `mode` of their optional arguments (both | none | x only | disregistry only), plus
-    disldensity and check_energies with the same subset."""
+    disldensity and check_energies with the same subset.  `eunit` = magnitude of one eV/angstrom (energy per length) in
+    the numbers at hand: 1 in the default working units; the absolute floor of every tolerance is a multiple of it and
+    the summary printed by check_energies (in eV/angstrom) is multiplied by it before it is compared."""
     np = _np()
+    punit = eunit if punit is None else punit          # one eV/angstrom in the CURRENT working units (what check_energies divides by)
     if mode is True or mode is False:
         mode = 'both' if mode else 'none'
     kw, x, d = mode_args(mode, np.asarray(x, dtype=float), np.asarray(d, dtype=float), stored)
@@ -2063,7 +2133,7 @@ def _check_terms(ctx, case, bad, pn, g, K, b, T, A1, A2, st, x, d, mode, when, s
     tols = {}
     for t in TERMS:
         wv, wa = float(want[t][0]), float(want[t][1])
-        tol = 1e-9 * wa + 1e-13
+        tol = 1e-9 * wa + 1e-13 * eunit
         tols[t] = tol
         tot += wv
         tol_tot += tol
@@ -2097,8 +2167,8 @@ def _check_terms(ctx, case, bad, pn, g, K, b, T, A1, A2, st, x, d, mode, when, s
         ok = False
     else:
         for t in wantp:
-            if not abs(pr[t] - wantp[t]) <= tols[t] + 1e-12 * abs(wantp[t]):
-                bad('check_energies', f'{when}: check_energies{args} prints {t} = {pr[t]!r}, documented formula {wantp[t]!r}')
+            if not abs(pr[t] * punit - wantp[t]) <= tols[t] + 1e-12 * abs(wantp[t]):
+                bad('check_energies', f'{when}: check_energies{args} prints {t} = {pr[t]!r} eV/angstrom, documented formula {wantp[t] / punit!r}')
                 ok = False
     # disldensity with the same subset of arguments: coordinates and density
     xf, df = fvec(x), [fvec(r_) for r_ in d]
@@ -2442,8 +2512,1652 @@ def chk_arctan(ctx, case):
         bad('disldensity', f'pn_arctan_disldensity != b/pi w/((x-c)^2 + w^2) (normalize={case["normalize"]}): {wv}')
 
 
+# ========================================================================================
+# cross-cutting classes (round 4): working units, aliasing, input forms, scales, falsy values, positional order,
+# file-like models, repeated solves, observation order.  One search op `xcut`, dispatched on case['kind'].
+# ========================================================================================
+DEFAULT_UNITS = {'length': 'angstrom', 'mass': 'amu', 'energy': 'eV', 'charge': 'e'}
+UNIT_CFGS = [
+    {'name': 'SI', 'seed': 'SI'},
+    {'name': 'nm-amu-eV-e', 'kw': {'length': 'nm', 'mass': 'amu', 'energy': 'eV', 'charge': 'e'}},
+    {'name': 'm-kg-s-C', 'kw': {'length': 'm', 'mass': 'kg', 'time': 's', 'charge': 'C'}},
+    {'name': 'pm-J-ps-e', 'kw': {'length': 'pm', 'energy': 'J', 'time': 'ps', 'charge': 'e'}},
+    {'name': 'cm-g-s-C', 'kw': {'length': 'cm', 'mass': 'g', 'time': 's', 'charge': 'C'}},
+    {'name': 'default', 'kw': DEFAULT_UNITS},
+]
+
+
+def set_units(cfg):
+    import atomman.unitconvert as uc
+    if 'seed' in cfg:
+        uc.reset_units(cfg['seed'])
+    else:
+        uc.reset_units(**cfg['kw'])
+
+
+class working_units:
+    """`with working_units(cfg):` -- atomman's working units are `cfg` inside and the default ones afterwards, whatever happens."""
+
+    def __init__(self, cfg):
+        self.cfg = cfg
+
+    def __enter__(self):
+        set_units(self.cfg)
+        return self
+
+    def __exit__(self, *a):
+        set_units({'kw': DEFAULT_UNITS})
+        return False
+
+
+def unit_factors():
+    """magnitudes, in the CURRENT working units, of one angstrom, eV/angstrom^3, eV/angstrom^2, eV/angstrom."""
+    import atomman.unitconvert as uc
+    return tuple(float(uc.set_in_units(1.0, u)) for u in ('angstrom', 'eV/angstrom^3', 'eV/angstrom^2', 'eV/angstrom'))
+
+
+def scale_spec(spec, sL, sE):
+    """the same gamma surface with every length multiplied by sL and every energy per area by sE."""
+    out = dict(spec)
+    B = [[1.0, 0.0, 0.0], [0.0, 1.0, 0.0], [0.0, 0.0, 1.0]] if spec['box'] is None else spec['box']
+    out['box'] = [[t * sL for t in r] for r in B]
+    if spec.get('origin') is not None:
+        out['origin'] = [t * sL for t in spec['origin']]
+    out['E'] = [t * sE for t in spec['E']]
+    out['delta'] = None if spec['delta'] is None else [t * sL for t in spec['delta']]
+    return out
+
+
+def scale_settings(st, LU, PU):
+    """settings given in angstrom / eV/angstrom^3 numbers -> numbers in units of (LU, PU)."""
+    out = dict(st)
+    out['tau'] = [[t * PU for t in r] for r in st['tau']]
+    out['beta'] = [[t * PU * LU for t in r] for r in st['beta']]
+    out['alpha'] = [t * PU / LU for t in st['alpha']]
+    out['cutofflongrange'] = st['cutofflongrange'] * LU
+    return out
+
+
+def exact_frame(v):
+    """K_tensor, burgers, transform of a Volterra solution in its [m, n, xi] frame (own exact evaluation)."""
+    np = _np()
+    M = [fvec(v.m), fvec(v.n), fvec(v.ξ)]
+    Kv, bv, Tv = [fvec(r_) for r_ in v.K_tensor], fvec(v.burgers), [fvec(r_) for r_ in v.transform]
+    K = np.array([[float(sum(M[i][k] * Kv[k][l] * M[j][l] for k in range(3) for l in range(3))) for j in range(3)] for i in range(3)])
+    b = np.array([float(sum(M[i][k] * bv[k] for k in range(3))) for i in range(3)])
+    T = np.array([[float(sum(M[i][k] * Tv[k][j] for k in range(3))) for j in range(3)] for i in range(3)])
+    return K, b, T
+
+
+def _rel(a, b, rtol, floor=0.0):
+    """None if |a - b| <= rtol * max|b| + floor element-wise (same shapes), else a description."""
+    np = _np()
+    a, b = np.asarray(a, dtype=float), np.asarray(b, dtype=float)
+    if a.shape != b.shape:
+        return f'shape {a.shape} vs {b.shape}'
+    if a.size == 0:
+        return None
+    if not np.all(np.isfinite(a)):
+        return f'non-finite value {a.ravel()[~np.isfinite(a.ravel())][:1].tolist()}'
+    tol = rtol * float(np.abs(b).max()) + floor
+    dif = np.abs(a - b)
+    if (dif > tol).any():
+        k = int(np.argmax(dif))
+        return f'index {k}: {a.ravel()[k]!r} vs {b.ravel()[k]!r}'
+    return None
+
+
+def _sdvpn_state(pn):
+    """the settings an SDVPN object reports, as plain numbers."""
+    np = _np()
+    return {'tau': np.array(pn.tau, dtype=float).copy(), 'beta': np.array(pn.beta, dtype=float).copy(),
+            'alpha': [float(np.ravel(a)[0]) for a in pn.alpha], 'cutofflongrange': float(pn.cutofflongrange),
+            'fullstress': pn.fullstress, 'cdiffelastic': pn.cdiffelastic, 'cdiffsurface': pn.cdiffsurface, 'cdiffstress': pn.cdiffstress}
+
+
+def _state_diff(got, st, LU=1.0, PU=1.0):
+    """compare reported settings with a settings record whose numbers are in units of (LU, PU); None if equal."""
+    w = (_rel(got['tau'], st['tau'], 1e-12) or _rel(got['beta'], st['beta'], 1e-12)
+         or (f'alpha has {len(got["alpha"])} coefficients, set {len(st["alpha"])}' if len(got['alpha']) != len(st['alpha']) else None)
+         or _rel(got['alpha'], st['alpha'], 1e-12) or _rel([got['cutofflongrange']], [st['cutofflongrange']], 1e-12))
+    if w:
+        return w
+    for f in FLAGS:
+        if got[f] is not st[f]:
+            return f'{f} = {got[f]!r}, set {st[f]!r}'
+    return None
+
+
+def xc_units(ctx, case, bad):
+    """ONE non-default set of working units throughout: all gamma-surface clauses, each energy term against its formula,
+    the documented default cut-off of 1000 angstrom, check_energies (printed in eV/angstrom), the data-model round trip
+    incl. the gamma surface, and a solve (energy not raised, ends fixed) -- on numbers expressed in those units."""
+    import atomman as am
+    np = _np()
+    cfg = case['cfg']
+    with working_units(cfg):
+        LU, PU, EU, ELU = unit_factors()
+        when = f'working units {cfg["name"]} (1 angstrom = {LU!r}, 1 eV/angstrom^2 = {EU!r}): '
+        ctx.stats.case('x:units', (cfg['name'], case['system'], case['gspec']['tag'], tuple(case['x'])))
+        # (a) the gamma-surface clauses
+        gs = scale_spec(case['gspec'], LU, EU)
+        g = call(mk_gamma, gs)
+        if isinstance(g, Raised):
+            bad('construct', f'{when}GammaSurface(...) {g}')
+            return
+        _gamma_clauses(ctx, case, dict(case['sub'], spec=gs), g, when, unit=(LU, EU))
+        # (b) SDVPN
+        v, _ = mk_volterra(case['system'], LU, PU)
+        sp = scale_spec(case['spec'], LU, EU)
+        g2 = mk_gamma(sp)
+        st = scale_settings(case['settings'], LU, PU)
+        pn = call(new_pn, v, g2, st)
+        if isinstance(pn, Raised):
+            bad('construct', f'{when}SDVPN(volterra=, gamma=, ...) {pn}')
+            return
+        K, b, T = exact_frame(v)
+        w = _rel(pn.K_tensor, K, 1e-12) or _rel(pn.burgers, b, 1e-12) or _rel(pn.transform, T, 1e-12)
+        if w:
+            bad('frame', f'{when}K_tensor / burgers / transform are not the Volterra solution\'s in its [m, n, xi] frame: {w}')
+            return
+        A1, A2 = o_cart(sp)
+        x, d = np.array(case['x']) * LU, np.array(case['d']) * LU
+        scale = max(EU, max(abs(t) for t in sp['E']))
+
+        def bad2(key, what):
+            bad(key, what)
+        if not _check_terms(ctx, case, bad2, pn, g2, K, b, T, A1, A2, st, x, d, True, when + 'fresh object', scale, eunit=ELU):
+            return
+        # the documented default cut-off
+        pd = call(lambda: am.defect.SDVPN(volterra=v, gamma=g2))
+        if isinstance(pd, Raised) or not abs(pd.cutofflongrange - 1000.0 * LU) <= 1e-12 * 1000.0 * LU:
+            bad('default-cutoff', f'{when}SDVPN(volterra=, gamma=) has cutofflongrange = '
+                                  f'{pd if isinstance(pd, Raised) else pd.cutofflongrange / LU!r} angstrom, documented default 1000 angstrom')
+        # data-model round trip incl. the gamma surface, every form
+        pn.x, pn.disregistry = x, d
+        e_ref = float(pn.total_energy())
+        for form in ('dm', 'json', 'xml', 'bytes'):
+            lu, pu, eu = case['model_units']
+            ctx.stats.case('x:units:model', (cfg['name'], case['system'], form, lu, pu, eu))
+
+            def trip():
+                m = pn.model(length_unit=lu, pressure_unit=pu, energyperarea_unit=eu, include_gamma=True)
+                import io
+                return am.defect.SDVPN(model={'dm': m, 'json': m.json(), 'xml': m.xml(), 'bytes': io.BytesIO(m.json().encode())}[form])
+            p2 = call(trip)
+            if isinstance(p2, Raised):
+                bad('model', f'{when}SDVPN(model=pn.model(length_unit={lu!r}, pressure_unit={pu!r}, energyperarea_unit={eu!r}, include_gamma=True) as {form}) {p2}')
+                continue
+            w = (_state_diff(_sdvpn_state(p2), st) or _rel(p2.x, x, 1e-12) or _rel(p2.disregistry, d, 1e-12, 1e-14 * LU)
+                 or _rel(p2.K_tensor, K, 1e-12) or _rel(p2.burgers, b, 1e-12, 1e-14 * LU) or _rel(p2.transform, T, 1e-12))
+            e2 = call(p2.total_energy)
+            if w or isinstance(e2, Raised) or not abs(float(e2) - e_ref) <= 1e-9 * (abs(e_ref) + ELU):
+                bad('model', f'{when}data-model round trip ({form}; {lu}, {pu}, {eu}) changes the object: {w or e2} (total energy {e_ref!r} -> {e2!s})')
+        # solve in these units
+        for method, opts in case['solves']:
+            ps = new_pn(v, g2, st)
+            e0 = call(ps.total_energy, x, d)
+            r = call(ps.solve, x=x.copy(), disregistry=d.copy(), min_method=method, min_options=dict(opts))
+            ctx.stats.case('x:units:solve', (cfg['name'], case['system'], method, str(opts)))
+            if isinstance(r, Raised) or isinstance(e0, Raised):
+                bad('solve', f'{when}solve(min_method={method!r}, min_options={opts}) {r if isinstance(r, Raised) else e0}')
+                continue
+            got, e1 = np.asarray(ps.disregistry), call(ps.total_energy)
+            if got.shape != d.shape or not np.array_equal(got[0], d[0]) or not np.array_equal(got[-1], d[-1]):
+                bad('solve', f'{when}solve({method}) moved an end disregistry')
+            elif isinstance(e1, Raised) or not float(e1) <= float(e0) + 1e-12 * (abs(float(e0)) + ELU):
+                bad('solve', f'{when}solve({method}) raised the total energy: {float(e0) / ELU!r} -> {e1 if isinstance(e1, Raised) else float(e1) / ELU!r} eV/angstrom')
+
+
+def xc_unitswitch(ctx, case, bad):
+    """the working units CHANGE between writing a model and reading it back (module-level state of the first load /
+    of the first construction must not survive): physical quantities of the record are preserved; the term methods of
+    an object are functions of its stored numbers only; a NEW object gets the documented default cut-off in the NEW units."""
+    import atomman as am
+    import atomman.unitconvert as uc
+    np = _np()
+    c1, c2 = case['cfg1'], case['cfg2']
+    lu, pu, eu = case['model_units']
+    v0, _ = mk_volterra(case['system'])
+    K0, b0, T0 = exact_frame(v0)
+    try:
+        set_units(c1)
+        LU, PU, EU, ELU = unit_factors()
+        when = f'working units {c1["name"]} -> {c2["name"]}: '
+        ctx.stats.case('x:unitswitch', (c1['name'], c2['name'], case['system'], case['form'], lu, pu, eu))
+        gs = scale_spec(case['gspec'], LU, EU)
+        g = mk_gamma(gs)
+        mg = g.model(length_unit=lu, energyperarea_unit=eu)
+        v, _ = mk_volterra(case['system'], LU, PU)
+        g2 = mk_gamma(scale_spec(case['spec'], LU, EU))
+        st = scale_settings(case['settings'], LU, PU)
+        pn = new_pn(v, g2, st)
+        pn.x, pn.disregistry = np.array(case['x']) * LU, np.array(case['d']) * LU
+        mp = pn.model(length_unit=lu, pressure_unit=pu)
+        form = case['form']
+        src_g = {'dm': mg, 'json': mg.json(), 'xml': mg.xml()}[form]
+        src_p = {'dm': mp, 'json': mp.json(), 'xml': mp.xml()}[form]
+        # first use under the first units (whatever is remembered at module level is remembered now)
+        am.defect.GammaSurface(model=src_g)
+        am.defect.SDVPN(model=src_p, gamma=g2)
+        am.defect.SDVPN(volterra=v, gamma=g2)
+        terms1 = {t: float(val) for t, val in _impl_terms(pn, {}).items()}
+        # ---- switch
+        set_units(c2)
+        LU2, PU2, EU2, ELU2 = unit_factors()
+        gb = call(lambda: am.defect.GammaSurface(model=src_g))
+        if isinstance(gb, Raised):
+            bad('gamma', f'{when}GammaSurface(model=<{form}>) {gb}')
+        else:
+            sp0 = case['gspec']
+            w = (_rel(gb.data.E_gsf.values / EU2, sp0['E'], 1e-12) or _rel(gb.data.a1.values, sp0['a1'], 1e-14) or _rel(gb.data.a2.values, sp0['a2'], 1e-14)
+                 or (sp0['delta'] is not None and ('delta' not in gb.data and 'plane-separation lost' or _rel(gb.data.delta.values / LU2, sp0['delta'], 1e-12))))
+            if w:
+                bad('gamma', f'{when}a record written as ({lu}, {eu}) under the first units and read under the second does not hold the same '
+                             f'physical energies / plane separations (eV/angstrom^2, angstrom): {w}')
+        g3 = mk_gamma(scale_spec(case['spec'], LU2, EU2))
+        pb = call(lambda: am.defect.SDVPN(model=src_p, gamma=g3))
+        if isinstance(pb, Raised):
+            bad('sdvpn', f'{when}SDVPN(model=<{form}>, gamma=) {pb}')
+        else:
+            st2 = scale_settings(case['settings'], LU2, PU2)
+            w = (_state_diff(_sdvpn_state(pb), st2) or _rel(pb.x / LU2, case['x'], 1e-12) or _rel(pb.disregistry / LU2, case['d'], 1e-12, 1e-14)
+                 or _rel(pb.K_tensor / PU2, K0, 1e-9) or _rel(pb.burgers / LU2, b0, 1e-12, 1e-14) or _rel(pb.transform, T0, 1e-12))
+            if w:
+                bad('sdvpn', f'{when}a record written as ({lu}, {pu}) under the first units and read under the second does not hold the same '
+                             f'physical settings / profile: {w}')
+            else:
+                A1, A2 = o_cart(scale_spec(case['spec'], LU2, EU2))
+                x2, d2 = np.array(pb.x, dtype=float).copy(), np.array(pb.disregistry, dtype=float).copy()     # verified above to be the physical profile
+                _check_terms(ctx, case, bad, pb, g3, K0 * PU2, b0 * LU2, T0, A1, A2, st2, x2, d2, 'none', when + 'object loaded under the second units',
+                             max(EU2, max(abs(t) for t in case['spec']['E']) * EU2), stored=(x2, d2), eunit=ELU2)
+        # the OLD object: its numbers are what they were
+        terms2 = _impl_terms(pn, {})
+        for t in terms1:
+            if isinstance(terms2[t], Raised) or float(terms2[t]) != terms1[t]:
+                bad('pure', f'{when}{t}_energy() of an object built before the switch changed from {terms1[t]!r} to {terms2[t]!s} (its stored numbers did not)')
+                break
+        pr = call(_printed_energies, pn, {})
+        if isinstance(pr, Raised) or any(not abs(pr[t] * ELU2 - terms1[t]) <= 1e-9 * abs(terms1[t]) + 1e-12 * abs(terms1['total']) for t in terms1 if t in pr) or len(pr) != 7:
+            bad('check_energies', f'{when}check_energies() does not print value / (eV/angstrom in the CURRENT units): {pr if isinstance(pr, Raised) else {t: pr[t] * ELU2 for t in pr}} vs {terms1}')
+        v2, _ = mk_volterra(case['system'], LU2, PU2)
+        pd = call(lambda: am.defect.SDVPN(volterra=v2, gamma=g3))
+        if isinstance(pd, Raised) or not abs(pd.cutofflongrange - 1000.0 * LU2) <= 1e-9 * LU2:
+            bad('default-cutoff', f'{when}a new SDVPN(volterra=, gamma=) has cutofflongrange = '
+                                  f'{pd if isinstance(pd, Raised) else pd.cutofflongrange / LU2!r} angstrom, documented default 1000 angstrom')
+    finally:
+        set_units({'kw': DEFAULT_UNITS})
+
+
+def _snap(objs):
+    """bitwise snapshot of a list of arrays / lists / dicts (inputs that must not be modified)."""
+    np = _np()
+    out = []
+    for o in objs:
+        if isinstance(o, np.ndarray):
+            out.append((o.dtype.str, o.shape, o.tobytes()))
+        else:
+            out.append(repr(o))
+    return out
+
+
+def _gamma_obs(g, q1, q2, P, XY):
+    """what a GammaSurface answers, as a flat dict of arrays (every entry point; data; shift vectors; model)."""
+    np = _np()
+    o = {'E:a12': g.E_gsf(a1=q1.copy(), a2=q2.copy()), 'E:near': g.E_gsf(a1=q1.copy(), a2=q2.copy(), smooth=False),
+         'E:pos': g.E_gsf(pos=P.copy()), 'E:xy': g.E_gsf(x=XY[0].copy(), y=XY[1].copy()),
+         'a12_to_pos': g.a12_to_pos(q1, q2), 'pos_to_a12': np.array(g.pos_to_a12(P.copy())), 'pos_to_xy': np.array(g.pos_to_xy(P.copy())),
+         'xy_to_pos': g.xy_to_pos(XY[0].copy(), XY[1].copy()), 'a1vect': g.a1vect, 'a2vect': g.a2vect, 'planenormal': g.planenormal,
+         'box': g.box.vects, 'data': g.data.values, 'model': np.frombuffer(g.model().json().encode(), dtype=np.uint8)}
+    if 'delta' in g.data:
+        o['delta'] = g.delta(a1=q1.copy(), a2=q2.copy())
+    return {k: np.array(v_, dtype=float if k != 'model' else np.uint8).copy() for k, v_ in o.items()}
+
+
+def _obs_diff(o0, o1):
+    np = _np()
+    for k in o0:
+        if k not in o1 or o0[k].shape != o1[k].shape or not np.array_equal(o0[k], o1[k]):
+            return k
+    return None
+
+
+def xc_alias_gamma(ctx, case, bad):
+    """GammaSurface and aliasing: constructor / set() arguments edited by the caller afterwards; inputs of every method
+    bitwise unchanged (float, view, integer, read-only arrays); results fresh (scribbled over, called again; two results
+    share no memory); the tree returned by model() edited; reads do not write."""
+    import atomman as am
+    np = _np()
+    spec = case['spec']
+    ctx.stats.case('x:alias:gamma', (spec['tag'], spec['n1'], spec['n2'], case['via'], tuple(map(tuple, case['queries']))))
+    av, bv = np.array(vec3(spec['a1vect']), dtype=float), np.array(vec3(spec['a2vect']), dtype=float)
+    a1, a2, E = np.array(spec['a1'], dtype=float), np.array(spec['a2'], dtype=float), np.array(spec['E'], dtype=float)
+    D = None if spec['delta'] is None else np.array(spec['delta'], dtype=float)
+    box = mk_box(spec)
+    if case['via'] == 'ctor':
+        g = call(lambda: am.defect.GammaSurface(a1vect=av, a2vect=bv, a1=a1, a2=a2, E_gsf=E, box=box, delta=D))
+    else:
+        g = call(mk_gamma, case['first'])
+        if not isinstance(g, Raised):
+            r = call(g.set, av, bv, a1, a2, E, box=box, delta=D)
+            g = r if isinstance(r, Raised) else g
+    if isinstance(g, Raised):
+        bad('construct', f'GammaSurface via {case["via"]} {g}')
+        return
+    tag = f'[{spec["tag"]} {spec["n1"]}x{spec["n2"]}, data given via {case["via"]}]'
+    q1 = np.array([t[0] for t in case['queries']], dtype=float)
+    q2 = np.array([t[1] for t in case['queries']], dtype=float)
+    A1, A2 = o_cart(spec)
+    P = np.array([[float(t) for t in o_pos(A1, A2, (FF(a), FF(b_)))] for a, b_ in zip(q1, q2)])
+    XY = np.array([o_xy(A1, A2, A1, [FF(t) for t in p_]) for p_ in P]).T.copy()
+    o0 = call(_gamma_obs, g, q1, q2, P, XY)
+    if isinstance(o0, Raised):
+        bad('raises', f'querying the object {o0} {tag}')
+        return
+    # -- (1) the caller edits what it had handed over
+    av *= 3.0
+    bv[:] = bv[::-1] + 1.0
+    a1 += 0.125
+    a2[:] = a2[::-1]
+    E[:] = 7.0
+    if D is not None:
+        D *= -2.0
+    if box is not None:
+        box.set(avect=[0.0, 0.0, 7.0], bvect=[1.0, 0.0, 0.5], cvect=[0.0, 2.0, 0.0], origin=[1.0, 1.0, 1.0])
+    o1 = call(_gamma_obs, g, q1, q2, P, XY)
+    k = str(o1) if isinstance(o1, Raised) else _obs_diff(o0, o1)
+    if k:
+        bad('input-kept', f'after the CALLER edited the arrays / Box it had given (a1vect *= 3, a2vect reversed, a1 += 0.125, E_gsf[:] = 7, box.set(...)) '
+                          f'the object answers differently: {k} {tag}')
+        return
+    # -- (2) inputs of the methods are not modified; (3) results are fresh
+    big = np.zeros(2 * len(q1) + 1)
+    big[1::2] = q1
+    vq1 = big[1::2]                                    # a strided view
+    iq1, iq2 = np.round(q1).astype(np.int64), np.round(q2).astype(np.int32)
+    ro1 = q1.copy()
+    ro1.flags.writeable = False
+    kwv = {'a1vect': av / 3.0 + np.array(vec3(spec['a2vect']), dtype=float)}
+    calls = [('E_gsf(a1=, a2=)', lambda: g.E_gsf(a1=q1, a2=q2), [q1, q2]), ('E_gsf(a1=<view>, a2=)', lambda: g.E_gsf(a1=vq1, a2=q2), [big, q2]),
+             ('E_gsf(a1=<int64>, a2=<int32>)', lambda: g.E_gsf(a1=iq1, a2=iq2), [iq1, iq2]),
+             ('E_gsf(a1=<read-only>, a2=)', lambda: g.E_gsf(a1=ro1, a2=q2), [ro1, q2]),
+             ('E_gsf(a1=, a2=, smooth=False)', lambda: g.E_gsf(a1=q1, a2=q2, smooth=False), [q1, q2]),
+             ('E_gsf(a1=, a2=, a1vect=)', lambda: g.E_gsf(a1=q1, a2=q2, **kwv), [q1, q2, kwv['a1vect']]),
+             ('E_gsf(pos=)', lambda: g.E_gsf(pos=P), [P]), ('E_gsf(pos=, smooth=False)', lambda: g.E_gsf(pos=P, smooth=False), [P]),
+             ('E_gsf(x=, y=)', lambda: g.E_gsf(x=XY[0], y=XY[1]), [XY]),
+             ('a12_to_pos', lambda: g.a12_to_pos(q1, q2), [q1, q2]), ('pos_to_a12', lambda: g.pos_to_a12(P), [P]),
+             ('pos_to_xy', lambda: g.pos_to_xy(P), [P]), ('xy_to_pos', lambda: g.xy_to_pos(XY[0], XY[1]), [XY]),
+             ('a12_to_xy', lambda: g.a12_to_xy(q1, q2), [q1, q2]), ('xy_to_a12', lambda: g.xy_to_a12(XY[0], XY[1]), [XY])]
+    if D is not None:
+        calls += [('delta(a1=, a2=)', lambda: g.delta(a1=q1, a2=q2), [q1, q2]), ('delta(pos=)', lambda: g.delta(pos=P), [P]),
+                  ('delta(a1=, a2=, smooth=False)', lambda: g.delta(a1=q1, a2=q2, smooth=False), [q1, q2])]
+    for nm, fn, ins in calls:
+        before = _snap(ins)
+        r1 = call(fn)
+        ctx.stats.case('x:alias:call', (spec['tag'], nm, tuple(q1)))
+        if isinstance(r1, Raised):
+            bad('raises', f'{nm} {r1} {tag}')
+            continue
+        if _snap(ins) != before:
+            bad('input-modified', f'{nm} modified its argument(s): a1={q1.tolist()}, a2={q2.tolist()} {tag}')
+            return
+        parts = list(r1) if isinstance(r1, tuple) else [r1]
+        keep = [np.array(p_, dtype=float).copy() for p_ in parts]
+        for p_ in parts:
+            if isinstance(p_, np.ndarray) and p_.flags.writeable:
+                p_[...] = -77.0
+        r2 = call(fn)
+        parts2 = list(r2) if isinstance(r2, tuple) else [r2]
+        if isinstance(r2, Raised) or any(not np.array_equal(np.asarray(a, dtype=float), b_) for a, b_ in zip(parts2, keep)):
+            bad('result-shared', f'{nm}: after the first result was overwritten by the caller, the same call gives '
+                                 f'{r2 if isinstance(r2, Raised) else np.ravel(np.asarray(parts2[0], dtype=float))[:3].tolist()} instead of {np.ravel(keep[0])[:3].tolist()} {tag}')
+            return
+        if any(isinstance(a, np.ndarray) and isinstance(b_, np.ndarray) and a.size and np.shares_memory(a, b_) for a in parts for b_ in parts2):
+            bad('result-shared', f'{nm}: two results share memory {tag}')
+            return
+    o2 = call(_gamma_obs, g, q1, q2, P, XY)
+    k = str(o2) if isinstance(o2, Raised) else _obs_diff(o0, o2)
+    if k:
+        bad('reads-write', f'after queries only (results overwritten by the caller) the object answers differently: {k} {tag}')
+        return
+    # -- (4) the tree returned by model() belongs to the caller
+    m = call(g.model)
+    if not isinstance(m, Raised):
+        sfm = m['stacking-fault-map']
+        sfm['box']['avect'][0] = 99.0
+        sfm['shift-vector-1'][0] = 99.0
+        rel = sfm['stacking-fault-relation']
+        rel['energy']['value'][0] = 99.0
+        rel['shift-vector-1-fraction'][1] = 0.77
+        o3 = call(_gamma_obs, g, q1, q2, P, XY)
+        k = str(o3) if isinstance(o3, Raised) else _obs_diff(o0, o3)
+        if k:
+            bad('model-shared', f'editing the tree returned by model() changed the object: {k} {tag}')
+
+
+def _sdvpn_obs(pn):
+    np = _np()
+    o = {t: np.array([float(val)]) for t, val in _impl_terms(pn, {}).items()}
+    s_ = _sdvpn_state(pn)
+    o.update({'tau': s_['tau'], 'beta': s_['beta'], 'alpha': np.array(s_['alpha']), 'cutoff': np.array([s_['cutofflongrange']]),
+              'x': np.array(pn.x, dtype=float).copy(), 'disregistry': np.array(pn.disregistry, dtype=float).copy(),
+              'K': np.array(pn.K_tensor).copy(), 'burgers': np.array(pn.burgers).copy(), 'transform': np.array(pn.transform).copy(),
+              'min_options': np.frombuffer(repr(sorted(pn.min_options.items())).encode(), dtype=np.uint8).astype(float),
+              'min_kwargs': np.frombuffer(repr(sorted(pn.min_kwargs.items())).encode(), dtype=np.uint8).astype(float)})
+    dn = pn.disldensity()
+    o['newx'], o['rho'] = np.array(dn[0]).copy(), np.array(dn[1]).copy()
+    return o
+
+
+def xc_alias_sdvpn(ctx, case, bad):
+    """SDVPN and aliasing: settings / profile arrays / option dicts edited by the caller after the constructor, a setter or
+    solve() took them; the default tau / beta of one object edited in place must not show in another; arguments of the
+    energy methods (incl. a disregistry with a y column) bitwise unchanged; results and the model() tree fresh."""
+    import atomman as am
+    np = _np()
+    v, g, A1, A2, scale = _system(case)
+    st = case['settings']
+    tag = f'[{case["system"]}, settings handed over via {case["via"]}]'
+    ctx.stats.case('x:alias:sdvpn', (case['system'], case['via'], tuple(case['x'])))
+    tt, bb, al = np.array(st['tau']), np.array(st['beta']), list(st['alpha'])
+    xx, dd = np.array(case['x'], dtype=float), np.array(case['d'], dtype=float)
+    mo, mk = {'maxfev': 4}, {'tol': 0.5}
+    flags = {f: st[f] for f in FLAGS}
+    mod = sys.modules['atomman.defect.SDVPN']
+    if case['via'] == 'ctor':
+        pn = call(lambda: am.defect.SDVPN(volterra=v, gamma=g, tau=tt, alpha=al, beta=bb, cutofflongrange=st['cutofflongrange'],
+                                          min_method='Nelder-Mead', min_options=mo, min_kwargs=mk, **flags))
+        if not isinstance(pn, Raised):
+            pn.x, pn.disregistry = xx, dd
+    elif case['via'] == 'setters':
+        pn = call(lambda: am.defect.SDVPN(volterra=v, gamma=g))
+        if not isinstance(pn, Raised):
+            pn.tau, pn.beta, pn.alpha, pn.cutofflongrange = tt, bb, al, st['cutofflongrange']
+            pn.min_method, pn.min_options, pn.min_kwargs = 'Nelder-Mead', mo, mk
+            for f in FLAGS:
+                setattr(pn, f, st[f])
+            pn.x, pn.disregistry = xx, dd
+    else:
+        pn = call(lambda: am.defect.SDVPN(volterra=v, gamma=g))
+        if not isinstance(pn, Raised):
+            real = mod.minimize
+            mod.minimize = _FakeMin(random.Random(case['seed']))
+            try:
+                r = call(pn.solve, x=xx, disregistry=dd, tau=tt, alpha=al, beta=bb, cutofflongrange=st['cutofflongrange'],
+                         min_method='Nelder-Mead', min_options=mo, min_kwargs=mk, **flags)
+            finally:
+                mod.minimize = real
+            pn = r if isinstance(r, Raised) else pn
+    if isinstance(pn, Raised):
+        bad('construct', f'{pn} {tag}')
+        return
+    o0 = call(_sdvpn_obs, pn)
+    if isinstance(o0, Raised):
+        bad('raises', f'evaluating the object {o0} {tag}')
+        return
+    if case['via'] != 'solve' and not np.array_equal(o0['disregistry'], np.array(case['d'])):
+        bad('input-kept', f'stored disregistry is not the one given {tag}')
+    keep_in = _snap([tt, bb, xx, dd])
+    # -- (1) the caller edits what it had handed over
+    tt[1, 0] += 3.0
+    bb[0, 0] -= 1.0
+    al.append(0.25)
+    al[0] = 9.0
+    xx *= 2.0
+    dd[len(dd) // 2, 0] += 0.5
+    mo['maxfev'] = 7000
+    mk['tol'] = 1e-30
+    o1 = call(_sdvpn_obs, pn)
+    k = str(o1) if isinstance(o1, Raised) else _obs_diff(o0, o1)
+    if k:
+        bad('input-kept', f'after the CALLER edited the tau / beta / alpha / x / disregistry / min_options / min_kwargs objects it had given, '
+                          f'the object reports a different {k} {tag}')
+        return
+    # -- (2) defaults are per object
+    p1 = call(lambda: am.defect.SDVPN(volterra=v, gamma=g))
+    if not isinstance(p1, Raised):
+        p1.tau[1, 0] += 0.5
+        p1.beta[0, 0] += 0.25
+        try:
+            p2 = call(lambda: am.defect.SDVPN(volterra=v, gamma=g))
+            if isinstance(p2, Raised) or np.any(p2.tau) or np.any(p2.beta):
+                bad('default-shared', f'after one object\'s default tau / beta were edited in place (obj.tau[1, 0] += 0.5), a NEW '
+                                      f'SDVPN(volterra=, gamma=) has tau[1] = {p2 if isinstance(p2, Raised) else p2.tau[1].tolist()}, '
+                                      f'beta[0] = {"" if isinstance(p2, Raised) else p2.beta[0].tolist()} instead of the documented zeros {tag}')
+        finally:
+            p1.tau[1, 0] -= 0.5
+            p1.beta[0, 0] -= 0.25
+    # -- (3) arguments of the methods (disregistry with a y column) are not modified, results are fresh
+    x, d = np.array(case['x'], dtype=float), np.array(case['d'], dtype=float)
+    d[:, 1] = 0.125 * np.arange(len(d))
+    di = np.round(d * 4).astype(np.int64)
+    xi = np.arange(len(x), dtype=np.int64)
+    big = np.zeros((2 * len(d), 3))
+    big[::2] = d
+    dv = big[::2]
+    methods = [(t + '_energy', getattr(pn, t + '_energy')) for t in ('misfit', 'elastic', 'stress', 'surface', 'nonlocal', 'total')]
+    methods += [('disldensity', pn.disldensity), ('disldensity(cdiff=True)', lambda a, b_: pn.disldensity(a, b_, cdiff=True))]
+    for nm, fn in methods:
+        for form, xa, da, ins in (('float arrays', x, d, [x, d]), ('a strided view', x, dv, [x, big]), ('integer arrays', xi, di, [xi, di])):
+            before = _snap(ins)
+            r1 = call(fn, xa, da)
+            ctx.stats.case('x:alias:call', (case['system'], nm, form))
+            if isinstance(r1, Raised):
+                bad('raises', f'{nm}(x, disregistry) with {form} {r1} {tag}')
+                continue
+            if _snap(ins) != before:
+                bad('input-modified', f'{nm}(x, disregistry) modified its arguments ({form}; disregistry with a y column) {tag}')
+                return
+            if isinstance(r1, tuple):
+                keep = [np.array(p_).copy() for p_ in r1]
+                for p_ in r1:
+                    p_[...] = -77
+                r2 = call(fn, xa, da)
+                if isinstance(r2, Raised) or any(not np.array_equal(a, b_) for a, b_ in zip(r2, keep)):
+                    bad('result-shared', f'{nm}: after the first result was overwritten by the caller, the same call gives another result {tag}')
+                    return
+    # stored profile: results of disldensity() and the model() tree belong to the caller
+    for cd in (False, True):
+        r1 = call(pn.disldensity, cdiff=cd)
+        if not isinstance(r1, Raised):
+            for p_ in r1:
+                if p_.flags.writeable:
+                    p_[...] = -77.0
+    m = call(pn.model)
+    if not isinstance(m, Raised):
+        par = m['semidiscrete-variational-Peierls-Nabarro']['parameter']
+        par['min_options']['maxfev'] = 123456
+        par['min_options']['zzz'] = 1
+        par['tau']['value'][0] = 99.0
+        m['semidiscrete-variational-Peierls-Nabarro']['solution']['x']['value'][0] = -1e6
+    o2 = call(_sdvpn_obs, pn)
+    k = str(o2) if isinstance(o2, Raised) else _obs_diff(o0, o2)
+    if k:
+        bad('result-shared', f'after the caller overwrote the arrays returned by disldensity() and edited the tree returned by model(), '
+                             f'the object reports a different {k} {tag}')
+        return
+    # solve() must not modify the guess it is given
+    xg, dg = np.array(case['x'], dtype=float), np.array(case['d'], dtype=float)
+    before = _snap([xg, dg])
+    r = call(pn.solve, x=xg, disregistry=dg, min_method='Nelder-Mead', min_options={'maxfev': 6}, min_kwargs={})
+    if isinstance(r, Raised):
+        bad('raises', f'solve(x=, disregistry=) {r} {tag}')
+    elif _snap([xg, dg]) != before:
+        bad('input-modified', f'solve(x=, disregistry=) modified the guess arrays it was given {tag}')
+    else:
+        sol = np.array(pn.disregistry).copy()
+        dg += 1.0
+        xg -= 3.0
+        if not np.array_equal(np.asarray(pn.disregistry), sol) or not np.array_equal(np.asarray(pn.x), np.array(case['x'], dtype=float)):
+            bad('input-kept', f'editing the guess arrays after solve() changed the stored solution / x {tag}')
+
+
+def _forms_1d(np, q):
+    """input forms of a 1-D float array `q` holding the same numbers: (name, object)."""
+    big = np.zeros(3 * len(q) + 2)
+    big[1::3][:len(q)] = q
+    ro = q.copy()
+    ro.flags.writeable = False
+    return [('list', q.tolist()), ('tuple', tuple(q.tolist())), ('strided view', big[1::3][:len(q)]), ('read-only', ro),
+            ('list of numpy scalars', [np.float64(t) for t in q]), ('reversed view', q[::-1].copy()[::-1])]
+
+
+def _forms_nd(np, q, sh):
+    """the numbers of `q` as arrays of shape `sh`: C order, Fortran order, a non-contiguous view."""
+    c = q.reshape(sh).copy()
+    out = [(f'shape {sh}', c), (f'shape {sh} Fortran order', np.asfortranarray(c))]
+    if len(sh) >= 2:
+        wide = np.zeros(sh[:-1] + (2 * sh[-1],))
+        wide[..., ::2] = c
+        out.append((f'shape {sh} non-contiguous', wide[..., ::2]))
+    return out
+
+
+def xc_forms_gamma(ctx, case, bad):
+    """GammaSurface and input forms: the same numbers handed over as lists / tuples / numpy scalars / integer and
+    float32 arrays / 0-d, (n,1), (1,n), rank-3 arrays / strided, Fortran-ordered, read-only arrays must give the values
+    (and the shape) of the plain float64 call; data and shift vectors given in these forms build the same surface."""
+    import atomman as am
+    np = _np()
+    spec = case['spec']
+    g = call(mk_gamma, spec)
+    if isinstance(g, Raised):
+        bad('construct', f'{g}')
+        return
+    tag = f'[{spec["tag"]} {spec["n1"]}x{spec["n2"]} delta={spec["delta"] is not None}]'
+    has_d = spec['delta'] is not None
+    scale = max(abs(t) for t in spec['E'])
+    A1, A2 = o_cart(spec)
+    L = max(abs(float(t)) for t in A1 + A2)
+    q1 = np.array([t[0] for t in case['queries']], dtype=float)
+    q2 = np.array([t[1] for t in case['queries']], dtype=float)
+    m = len(q1)
+    P = np.array([[float(t) for t in o_pos(A1, A2, (FF(a), FF(b_)))] for a, b_ in zip(q1, q2)])
+    XY = np.array([o_xy(A1, A2, A1, [FF(t) for t in p_]) for p_ in P]).T.copy()
+    v12 = np.array(vec3(spec['a1vect']), dtype=float) + np.array(vec3(spec['a2vect']), dtype=float)
+    fields = [('E_gsf', g.E_gsf, scale)] + ([('delta', g.delta, max(abs(t) for t in spec['delta']) or 1.0)] if has_d else [])
+    c1_, c2_ = (1 - max(spec['a1'])) / 2, (1 - max(spec['a2'])) / 2
+    n_checked = 0
+
+    def same(nm, got, ref, shape, tol):
+        nonlocal n_checked
+        n_checked += 1
+        ctx.stats.case('x:forms:gamma', (spec['tag'], nm, tuple(q1)))
+        if isinstance(got, Raised):
+            bad('raises', f'{nm} {got}; the same numbers as float64 arrays are accepted {tag}')
+            return False
+        if shape is not None and np.shape(got) != tuple(shape):
+            bad('shape', f'{nm} returns shape {np.shape(got)}, expected {tuple(shape)} {tag}')
+            return False
+        w = _rel(np.ravel(np.asarray(got, dtype=float)), np.ravel(ref), 0.0, tol)
+        if w:
+            bad('value', f'{nm} differs from the same numbers given as float64 arrays: {w}; a1={q1.tolist()}, a2={q2.tolist()} {tag}')
+            return False
+        return True
+
+    for fname, fn, fs in fields:
+        for kw, kwn in (({}, ''), ({'smooth': False}, ', smooth=False')):
+            ref = call(fn, a1=q1.copy(), a2=q2.copy(), **kw)
+            if isinstance(ref, Raised):
+                bad('raises', f'{fname}(a1=, a2={kwn}) {ref} {tag}')
+                return
+            ref = np.asarray(ref, dtype=float)
+            tol = 1e-10 * fs
+            for (n1_, f1), (n2_, f2) in zip(_forms_1d(np, q1), _forms_1d(np, q2)):
+                if not same(f'{fname}(a1=<{n1_}>, a2=<{n2_}>{kwn})', call(fn, a1=f1, a2=f2, **kw), ref, (m,), tol):
+                    return
+            # mixed forms within one call
+            same(f'{fname}(a1=<list>, a2=<read-only array>{kwn})', call(fn, a1=q1.tolist(), a2=_forms_1d(np, q2)[3][1], **kw), ref, (m,), tol)
+            # scalars of every kind (one point)
+            for sn, conv in (('python float', float), ('numpy.float64', np.float64), ('0-d array', np.array)):
+                same(f'{fname}(a1=<{sn}>, a2=<{sn}>{kwn})', call(fn, a1=conv(q1[0]), a2=conv(q2[0]), **kw), ref[:1], (), tol)
+            same(f'{fname}(a1=<python float>, a2=<0-d array>{kwn})', call(fn, a1=float(q1[0]), a2=np.array(q2[0]), **kw), ref[:1], (), tol)
+            # shapes
+            if m % 4 == 0:
+                for sh in ((m, 1), (1, m), (2, 1, m // 2), (2, 2, m // 4) if m % 4 == 0 else (m,)):
+                    for (n1_, f1), (n2_, f2) in zip(_forms_nd(np, q1, sh), _forms_nd(np, q2, sh)):
+                        if not same(f'{fname}(a1=<{n1_}>, a2=<{n2_}>{kwn})', call(fn, a1=f1, a2=f2, **kw), ref, sh, tol):
+                            return
+            # float32: the SAME (rounded) numbers as float64
+            s1, s2 = q1.astype(np.float32), q2.astype(np.float32)
+            r32 = call(fn, a1=s1.astype(float), a2=s2.astype(float), **kw)
+            inner = np.array([not ((c1_ < 1e-9 and abs(a - round(a)) < 1e-6) or (c2_ < 1e-9 and abs(b_ - round(b_)) < 1e-6)) for a, b_ in zip(q1, q2)])
+            if not isinstance(r32, Raised):
+                same(f'{fname}(a1=<float32 array>, a2=<float32 array>{kwn})', call(fn, a1=s1, a2=s2, **kw), np.asarray(r32, dtype=float), (m,), tol)
+                same(f'{fname}(a1=<numpy.float32>, a2=<numpy.float32>{kwn})', call(fn, a1=s1[0], a2=s2[0], **kw), np.asarray(r32, dtype=float)[:1], (), tol)
+            # integers: lattice points
+            i1, i2 = np.round(q1).astype(np.int64), np.round(q2).astype(np.int64)
+            ri = call(fn, a1=i1.astype(float), a2=i2.astype(float), **kw)
+            if not isinstance(ri, Raised):
+                ri = np.asarray(ri, dtype=float)
+                for inm, a, b_ in (('int64 arrays', i1, i2), ('int32 arrays', i1.astype(np.int32), i2.astype(np.int32)), ('lists of python ints', i1.tolist(), i2.tolist()),
+                                   ('int64 / float64', i1, i2.astype(float))):
+                    if not same(f'{fname}(a1=<{inm}>, a2=...{kwn}) at the lattice points a1={i1.tolist()}, a2={i2.tolist()}', call(fn, a1=a, b_=None, **kw) if False else call(fn, a1=a, a2=b_, **kw), ri, (m,), tol):
+                        return
+                same(f'{fname}(a1=<python int>, a2=<python int>{kwn})', call(fn, a1=int(i1[0]), a2=int(i2[0]), **kw), ri[:1], (), tol)
+                same(f'{fname}(a1=0, a2=0{kwn})', call(fn, a1=0, a2=0, **kw), np.asarray(call(fn, a1=np.array([0.0]), a2=np.array([0.0]), **kw), dtype=float), (), tol)
+            # the a1vect= / a2vect= keywords in other forms
+            rv = call(fn, a1=q1.copy(), a2=q2.copy(), a1vect=v12.copy(), **kw)
+            if not isinstance(rv, Raised) and not kw and (c1_ > 1e-9 and c2_ > 1e-9):
+                rv = np.asarray(rv, dtype=float)
+                for vn, vv in (('list', v12.tolist()), ('tuple', tuple(v12.tolist())), ('read-only', _forms_1d(np, v12)[3][1]), ('strided view', _forms_1d(np, v12)[2][1])):
+                    same(f'{fname}(a1=, a2=, a1vect=<{vn}>)', call(fn, a1=q1.copy(), a2=q2.copy(), a1vect=vv), rv, (m,), tol)
+                if np.all(v12 == np.round(v12)):
+                    same(f'{fname}(a1=, a2=, a1vect=<int64 array>)', call(fn, a1=q1.copy(), a2=q2.copy(), a1vect=v12.astype(np.int64)), rv, (m,), tol)
+                if m % 4 == 0:
+                    same(f'{fname}(a1=<shape (2,{m // 2})>, a2=..., a1vect=)', call(fn, a1=q1.reshape(2, -1).copy(), a2=q2.reshape(2, -1).copy(), a1vect=v12.copy()), rv, (2, m // 2), tol)
+        # positions and plotting coordinates (queries ON a cell edge of a surface with the duplicated edge are left out:
+        # the value there jumps, a float solve may land on either side)
+        inner = np.array([not ((c1_ < 1e-9 and abs(a - round(a)) < 1e-9) or (c2_ < 1e-9 and abs(b_ - round(b_)) < 1e-9)) for a, b_ in zip(q1, q2)])
+        if not inner.all():
+            continue
+        refp = call(fn, pos=P.copy())
+        if isinstance(refp, Raised):
+            bad('raises', f'{fname}(pos=) {refp} {tag}')
+            return
+        refp = np.asarray(refp, dtype=float)
+        tol = 1e-9 * fs
+        Pro = P.copy()
+        Pro.flags.writeable = False
+        bigP = np.zeros((2 * m, 6))
+        bigP[::2, ::2] = P
+        for pn_, pf in (('list of lists', P.tolist()), ('tuple of tuples', tuple(map(tuple, P.tolist()))), ('read-only', Pro), ('Fortran order', np.asfortranarray(P)),
+                        ('strided view', bigP[::2, ::2]), ('transposed (3, n) array .T', np.ascontiguousarray(P.T).T), ('list of arrays', [r_.copy() for r_ in P])):
+            if not same(f'{fname}(pos=<{pn_}>)', call(fn, pos=pf), refp, (m,), tol):
+                return
+        for pn_, pf in (('list', P[0].tolist()), ('tuple', tuple(P[0].tolist())), ('1-D array', P[0].copy()), ('strided 1-D view', bigP[0, ::2])):
+            same(f'{fname}(pos=<one position, {pn_}>)', call(fn, pos=pf), refp[:1], (), tol)
+        same(f'{fname}(pos=<shape (1, 3)>)', call(fn, pos=P[:1].copy()), refp[:1], (1,), tol)
+        P32 = P.astype(np.float32)
+        r32 = call(fn, pos=P32.astype(float))
+        if not isinstance(r32, Raised) and c1_ > 1e-9 and c2_ > 1e-9:
+            same(f'{fname}(pos=<float32 array>)', call(fn, pos=P32), np.asarray(r32, dtype=float), (m,), 1e-9 * fs)
+        refx = call(fn, x=XY[0].copy(), y=XY[1].copy())
+        if not isinstance(refx, Raised):
+            refx = np.asarray(refx, dtype=float)
+            for (n1_, f1), (n2_, f2) in zip(_forms_1d(np, XY[0]), _forms_1d(np, XY[1])):
+                if not same(f'{fname}(x=<{n1_}>, y=<{n2_}>)', call(fn, x=f1, y=f2), refx, (m,), tol):
+                    return
+            for sn, conv in (('python float', float), ('numpy.float64', np.float64), ('0-d array', np.array)):
+                same(f'{fname}(x=<{sn}>, y=<{sn}>)', call(fn, x=conv(XY[0, 0]), y=conv(XY[1, 0])), refx[:1], None, tol)
+            Xv = np.array([float(t) for t in A2])
+            rxv = call(fn, x=XY[0].copy(), y=XY[1].copy(), xvect=np.array([float(t) for t in A1]))
+            if not isinstance(rxv, Raised):
+                for vn, vv in (('list', [float(t) for t in A1]), ('tuple', tuple(float(t) for t in A1))):
+                    same(f'{fname}(x=, y=, xvect=<{vn}>)', call(fn, x=XY[0].copy(), y=XY[1].copy(), xvect=vv), np.asarray(rxv, dtype=float), (m,), tol)
+            del Xv
+    # integer-valued Cartesian positions / plotting coordinates (exactly representable points)
+    Pi = np.array([[float(round(t)) for t in p_] for p_ in P * 4.0])
+    r_f = call(g.pos_to_a12, Pi.copy())
+    if not isinstance(r_f, Raised):
+        # integer positions are in the plane only if the plane holds them: use the conversions, which do not assert
+        pass
+    for nm, fn, args, forms in (
+            ('a12_to_pos', g.a12_to_pos, (q1, q2), None), ('a12_to_xy', g.a12_to_xy, (q1, q2), None), ('xy_to_pos', g.xy_to_pos, (XY[0], XY[1]), None),
+            ('xy_to_a12', g.xy_to_a12, (XY[0], XY[1]), None)):
+        ref = call(fn, *[a.copy() for a in args])
+        if isinstance(ref, Raised):
+            bad('raises', f'{nm} {ref} {tag}')
+            continue
+        refa = np.array(ref, dtype=float)
+        tolc = 1e-9 * (L if 'pos' in nm.split('_to_')[1] or nm.endswith('xy') else 1.0) * (1 + float(np.abs(q1).max() + np.abs(q2).max()))
+        for (n1_, f1), (n2_, f2) in zip(_forms_1d(np, args[0]), _forms_1d(np, args[1])):
+            r = call(fn, f1, f2)
+            if not same(f'{nm}(<{n1_}>, <{n2_}>)', r if isinstance(r, Raised) else np.array(r, dtype=float), refa, refa.shape, tolc):
+                break
+        r = call(fn, float(args[0][0]), float(args[1][0]))
+        same(f'{nm}(<python float>, <python float>)', r if isinstance(r, Raised) else np.ravel(np.array(r, dtype=float)), np.ravel(refa[:, 0] if refa.shape[0] == 2 and nm.endswith(('xy', 'a12')) else refa[0]), None, tolc)
+        i1, i2 = np.round(args[0]).astype(np.int64), np.round(args[1]).astype(np.int64)
+        ri = call(fn, i1.astype(float), i2.astype(float))
+        if not isinstance(ri, Raised):
+            r = call(fn, i1, i2)
+            same(f'{nm}(<int64 array>, <int64 array>)', r if isinstance(r, Raised) else np.array(r, dtype=float), np.array(ri, dtype=float), None, tolc)
+            r = call(fn, i1.tolist(), i2.tolist())
+            same(f'{nm}(<list of ints>, <list of ints>)', r if isinstance(r, Raised) else np.array(r, dtype=float), np.array(ri, dtype=float), None, tolc)
+    for nm, fn in (('pos_to_a12', g.pos_to_a12), ('pos_to_xy', g.pos_to_xy)):
+        ref = call(fn, P.copy())
+        if isinstance(ref, Raised):
+            bad('raises', f'{nm} {ref} {tag}')
+            continue
+        refa = np.array(ref, dtype=float)
+        tolc = 1e-9 * (L if nm.endswith('xy') else 1.0) * (1 + float(np.abs(q1).max() + np.abs(q2).max()))
+        Pro = P.copy()
+        Pro.flags.writeable = False
+        for pn_, pf in (('list of lists', P.tolist()), ('tuple of tuples', tuple(map(tuple, P.tolist()))), ('read-only', Pro), ('Fortran order', np.asfortranarray(P)),
+                        ('transposed (3, n) array .T', np.ascontiguousarray(P.T).T), ('float32 array', None)):
+            if pf is None:
+                P32 = P.astype(np.float32)
+                r0 = call(fn, P32.astype(float))
+                r = call(fn, P32)
+                if isinstance(r0, Raised):
+                    continue
+                same(f'{nm}(<{pn_}>)', r if isinstance(r, Raised) else np.array(r, dtype=float), np.array(r0, dtype=float), None, tolc)
+                continue
+            r = call(fn, pf)
+            same(f'{nm}(<{pn_}>)', r if isinstance(r, Raised) else np.array(r, dtype=float), refa, refa.shape, tolc)
+        r = call(fn, P[0].tolist())
+        same(f'{nm}(<one position, list>)', r if isinstance(r, Raised) else np.ravel(np.array(r, dtype=float)), refa[:, 0], None, tolc)
+        # integer-typed positions: the lattice translations n1 A1 + n2 A2 of a cell with integer Cartesian vectors
+        mlt = min([k_ for k_ in (1, 2, 4) if all(float(k_ * t) == round(float(k_ * t)) for t in A1 + A2)] or [0])
+        if mlt:
+            Pi = np.array([[int(round(float(t))) for t in o_pos(A1, A2, (FF(mlt * round(a)), FF(mlt * round(b_))))] for a, b_ in zip(q1, q2)], dtype=np.int64)
+            r0, r = call(fn, Pi.astype(float)), call(fn, Pi)
+            if not isinstance(r0, Raised):
+                same(f'{nm}(<int64 positions {Pi.tolist()}>)', r if isinstance(r, Raised) else np.array(r, dtype=float), np.array(r0, dtype=float), None, tolc)
+    # -- the data and the shift vectors themselves in other forms: the same surface
+    ref = np.asarray(g.E_gsf(a1=q1.copy(), a2=q2.copy()), dtype=float)
+    box = mk_box(spec)
+    a1v, a2v = spec['a1vect'], spec['a2vect']
+    builds = [('lists', dict(a1vect=list(a1v), a2vect=list(a2v), a1=list(spec['a1']), a2=list(spec['a2']), E_gsf=list(spec['E']))),
+              ('tuples', dict(a1vect=tuple(a1v), a2vect=tuple(a2v), a1=tuple(spec['a1']), a2=tuple(spec['a2']), E_gsf=tuple(spec['E']))),
+              ('strings for the vectors', dict(a1vect=' '.join(repr(float(t)) for t in a1v), a2vect=' '.join(repr(float(t)) for t in a2v),
+                                               a1=np.array(spec['a1']), a2=np.array(spec['a2']), E_gsf=np.array(spec['E']))),
+              ('read-only / strided arrays', dict(a1vect=_forms_1d(np, np.array(a1v, dtype=float))[3][1], a2vect=_forms_1d(np, np.array(a2v, dtype=float))[2][1],
+                                                  a1=_forms_1d(np, np.array(spec['a1']))[2][1], a2=_forms_1d(np, np.array(spec['a2']))[3][1],
+                                                  E_gsf=_forms_1d(np, np.array(spec['E']))[2][1])),
+              ('float32 vectors', dict(a1vect=np.array(a1v, dtype=np.float32), a2vect=np.array(a2v, dtype=np.float32), a1=np.array(spec['a1']),
+                                       a2=np.array(spec['a2']), E_gsf=np.array(spec['E']))) if all(float(np.float32(t)) == t for t in list(a1v) + list(a2v)) else None,
+              ('integer vectors', dict(a1vect=[int(t) for t in a1v], a2vect=np.array([int(t) for t in a2v], dtype=np.int32), a1=np.array(spec['a1']),
+                                       a2=np.array(spec['a2']), E_gsf=np.array(spec['E']))) if all(float(t) == int(t) for t in list(a1v) + list(a2v)) else None]
+    for item in builds:
+        if item is None:
+            continue
+        bn, kwb = item
+        if has_d:
+            kwb['delta'] = list(spec['delta']) if bn != 'tuples' else tuple(spec['delta'])
+        g2 = call(lambda: am.defect.GammaSurface(box=box, **kwb))
+        r = g2 if isinstance(g2, Raised) else call(g2.E_gsf, a1=q1.copy(), a2=q2.copy())
+        if same(f'GammaSurface(data / vectors given as {bn}).E_gsf(a1=, a2=)', r, ref, (m,), 1e-12 * scale) and has_d:
+            same(f'GammaSurface(data given as {bn}).delta(a1=, a2=)', call(g2.delta, a1=q1.copy(), a2=q2.copy()), np.asarray(g.delta(a1=q1.copy(), a2=q2.copy()), dtype=float), (m,), 1e-12)
+    # integer-typed energies (e.g. read from a table of mJ/m^2 rounded to integers)
+    Ei = np.round(np.array(spec['E']) * 64).astype(np.int64)
+    if np.any(Ei):
+        gi = call(lambda: am.defect.GammaSurface(a1vect=list(a1v), a2vect=list(a2v), a1=np.array(spec['a1']), a2=np.array(spec['a2']), E_gsf=Ei, box=box))
+        gf = call(lambda: am.defect.GammaSurface(a1vect=list(a1v), a2vect=list(a2v), a1=np.array(spec['a1']), a2=np.array(spec['a2']), E_gsf=Ei.astype(float), box=box))
+        if not isinstance(gf, Raised):
+            for kw, kwn in (({}, ''), ({'smooth': False}, ', smooth=False')):
+                same(f'GammaSurface(E_gsf=<int64 array>).E_gsf(a1=, a2={kwn})', gi if isinstance(gi, Raised) else call(gi.E_gsf, a1=q1.copy(), a2=q2.copy(), **kw),
+                     np.asarray(gf.E_gsf(a1=q1.copy(), a2=q2.copy(), **kw), dtype=float), (m,), 1e-10 * float(np.abs(Ei).max()))
+    ctx.extra['xcut_forms_gamma_checked'] = ctx.extra.get('xcut_forms_gamma_checked', 0) + n_checked
+
+
+def xc_forms_sdvpn(ctx, case, bad):
+    """SDVPN / pn_arctan_* and input forms: x, disregistry, tau, beta, alpha, cut-off given as lists / tuples / integer /
+    float32 / strided / Fortran-ordered / read-only arrays, python and numpy scalars -- through the constructor, the
+    setters, solve() and the explicit arguments of every method -- give what the float64 arrays give."""
+    import atomman as am
+    np = _np()
+    v, g, A1, A2, scale = _system(case)
+    st = case['settings']
+    tag = f'[{case["system"]}]'
+    pn = call(new_pn, v, g, st)
+    if isinstance(pn, Raised):
+        bad('construct', f'{pn} {tag}')
+        return
+    x, d = np.array(case['x'], dtype=float), np.array(case['d'], dtype=float)
+    names = ('misfit', 'elastic', 'stress', 'surface', 'nonlocal', 'total')
+    ref = {t: call(getattr(pn, t + '_energy'), x, d) for t in names}
+    if any(isinstance(r, Raised) for r in ref.values()):
+        bad('raises', f'energies of float64 arrays: {[str(r) for r in ref.values() if isinstance(r, Raised)][:1]} {tag}')
+        return
+    mag = sum(abs(float(ref[t])) for t in names[:-1]) + 1e-300
+    bigx = np.zeros(2 * len(x))
+    bigx[::2] = x
+    bigd = np.zeros((len(d), 6))
+    bigd[:, ::2] = d
+    xro, dro = x.copy(), d.copy()
+    xro.flags.writeable = False
+    dro.flags.writeable = False
+    forms = [('lists', x.tolist(), d.tolist(), 1e-12), ('tuples', tuple(x.tolist()), tuple(map(tuple, d.tolist())), 1e-12),
+             ('strided views', bigx[::2], bigd[:, ::2], 1e-12), ('Fortran-ordered disregistry', x, np.asfortranarray(d), 1e-12),
+             ('read-only arrays', xro, dro, 1e-12), ('list of arrays', [np.float64(t) for t in x], [r_.copy() for r_ in d], 1e-12)]
+
+    def cmp(nm, got, want, rtol):
+        ctx.stats.case('x:forms:sdvpn', (case['system'], nm))
+        if isinstance(got, Raised):
+            bad('raises', f'{nm} {got}; the same numbers as float64 arrays are accepted {tag}')
+            return False
+        if not abs(float(got) - float(want)) <= rtol * mag:
+            bad('value', f'{nm} = {float(got)!r}, the same numbers as float64 arrays give {float(want)!r} {tag}')
+            return False
+        return True
+    for fnm, xa, da, rtol in forms:
+        for t in names:
+            if not cmp(f'{t}_energy(x=<{fnm}>, disregistry=<{fnm}>)', call(getattr(pn, t + '_energy'), xa, da), ref[t], rtol):
+                return
+        for cd in (False, True):
+            r0, r = pn.disldensity(x, d, cdiff=cd), call(pn.disldensity, xa, da, cdiff=cd)
+            w = str(r) if isinstance(r, Raised) else (_rel(r[0], r0[0], 1e-14) or _rel(r[1], r0[1], 1e-12))
+            if w:
+                bad('value', f'disldensity(x=<{fnm}>, disregistry=<{fnm}>, cdiff={cd}): {w} {tag}')
+                return
+    # float32: the same rounded numbers as float64 (the arithmetic may then be single precision: 1e-5 of the magnitudes)
+    x32, d32 = x.astype(np.float32), d.astype(np.float32)
+    for t in names:
+        want = call(getattr(pn, t + '_energy'), x32.astype(float), d32.astype(float))
+        if not isinstance(want, Raised):
+            cmp(f'{t}_energy(x=<float32>, disregistry=<float32>)', call(getattr(pn, t + '_energy'), x32, d32), want, 1e-4)
+    # integers: an integer grid and an integer-valued disregistry
+    xi = np.arange(len(x), dtype=np.int64) - len(x) // 2
+    di = np.zeros((len(x), 3), dtype=np.int64)
+    di[:, 0] = np.round(np.linspace(0, 3, len(x)))
+    di[:, 2] = np.round(np.linspace(0, -2, len(x)) ** 2)
+    for inm, xa, da in (('int64 arrays', xi, di), ('int32 arrays', xi.astype(np.int32), di.astype(np.int32)), ('lists of python ints', xi.tolist(), di.tolist()),
+                        ('int64 grid, float disregistry', xi, di.astype(float))):
+        for t in names:
+            want = call(getattr(pn, t + '_energy'), xi.astype(float), di.astype(float))
+            if not isinstance(want, Raised) and not cmp(f'{t}_energy(x=<{inm}>, ...) on the grid {xi.tolist()}', call(getattr(pn, t + '_energy'), xa, da), want, 1e-12):
+                return
+    # -- settings in other forms (constructor, setters, solve): the same state, the same energies
+    tau, beta = np.array(st['tau']), np.array(st['beta'])
+    e_ref = float(ref['total'])
+    tro = tau.copy()
+    tro.flags.writeable = False
+    al = list(st['alpha'])
+    variants = [('lists of lists', dict(tau=tau.tolist(), beta=beta.tolist(), alpha=al)), ('tuples', dict(tau=tuple(map(tuple, tau.tolist())), beta=tuple(map(tuple, beta.tolist())), alpha=tuple(al))),
+                ('Fortran / read-only arrays', dict(tau=tro, beta=np.asfortranarray(beta), alpha=np.array(al))),
+                ('transposed views', dict(tau=np.ascontiguousarray(tau.T).T, beta=np.ascontiguousarray(beta.T).T, alpha=[np.float64(t) for t in al]))]
+    mod = sys.modules['atomman.defect.SDVPN']
+    for vn, kwv in variants:
+        for how in ('constructor', 'setters', 'solve'):
+            ctx.stats.case('x:forms:settings', (case['system'], vn, how))
+
+            def build():
+                base = dict(cutofflongrange=st['cutofflongrange'], **{f: st[f] for f in FLAGS})
+                if how == 'constructor':
+                    return am.defect.SDVPN(volterra=v, gamma=g, **kwv, **base)
+                p = am.defect.SDVPN(volterra=v, gamma=g, **base)
+                if how == 'setters':
+                    for k_, val in kwv.items():
+                        setattr(p, k_, val)
+                    return p
+                real = mod.minimize
+                mod.minimize = _FakeMin(random.Random(1))
+                try:
+                    p.solve(x=x.tolist(), disregistry=d.tolist(), **kwv)
+                finally:
+                    mod.minimize = real
+                return p
+            p = call(build)
+            if isinstance(p, Raised):
+                bad('raises', f'tau / beta / alpha given as {vn} through the {how}: {p} {tag}')
+                continue
+            w = _state_diff(_sdvpn_state(p), st)
+            e = call(p.total_energy, x, d)
+            if w or isinstance(e, Raised) or not abs(float(e) - e_ref) <= 1e-12 * mag:
+                bad('value', f'tau / beta / alpha given as {vn} through the {how}: {w or e} (total energy {e!s} vs {e_ref!r}) {tag}')
+    # a single alpha coefficient as a bare number of any kind; the cut-off as an int / numpy scalar
+    a0 = float(al[0])
+    for an, av in (('python float', a0), ('numpy.float64', np.float64(a0)), ('0-d array', np.array(a0)), ('numpy.float32', np.float32(a0)) if float(np.float32(a0)) == a0 else ('python float', a0)):
+        p = call(lambda: am.defect.SDVPN(volterra=v, gamma=g, alpha=av))
+        want = a0 * float(np.sum(d[1:-1] * (d[1:-1] - 0.5 * (d[2:] + d[:-2])))) * float(x[1] - x[0])
+        e = p if isinstance(p, Raised) else call(p.nonlocal_energy, x, d)
+        ctx.stats.case('x:forms:alpha', (case['system'], an))
+        if isinstance(e, Raised) or len(p.alpha) != 1 or not abs(float(e) - want) <= 1e-9 * abs(want) + 1e-13:
+            bad('value', f'alpha given as a {an} ({a0!r}): alpha = {p if isinstance(p, Raised) else p.alpha}, nonlocal_energy = {e!s}, formula {want!r} {tag}')
+    for cn, cv in (('python int', 37), ('numpy.int64', np.int64(37)), ('numpy.float32', np.float32(37.0)), ('0-d array', np.array(37.0))):
+        p = call(lambda: am.defect.SDVPN(volterra=v, gamma=g, cutofflongrange=cv))
+        ctx.stats.case('x:forms:cutoff', (case['system'], cn))
+        if isinstance(p, Raised) or p.cutofflongrange != 37.0:
+            bad('value', f'cutofflongrange given as a {cn} (37): {p if isinstance(p, Raised) else p.cutofflongrange!r} {tag}')
+        else:
+            want = o_terms(pn.K_tensor, pn.burgers, dict(st, cutofflongrange=37.0), x, d)['longrange'][0]
+            if not abs(float(p.longrange_energy()) - float(want)) <= 1e-9 * abs(float(want)):
+                bad('value', f'longrange_energy with cutofflongrange given as a {cn} (37) = {p.longrange_energy()!r}, formula {float(want)!r} {tag}')
+    # -- the stored profile given in other forms (setters, solve) and an integer-typed guess
+    for fnm, xa, da, rtol in forms[:5]:
+        p = new_pn(v, g, st)
+        r = call(lambda: (setattr(p, 'x', xa), setattr(p, 'disregistry', da)))
+        e = r if isinstance(r, Raised) else call(p.total_energy)
+        cmp(f'obj.x = <{fnm}>; obj.disregistry = <{fnm}>; total_energy()', e, ref['total'], rtol)
+    pf, pi = new_pn(v, g, st), new_pn(v, g, st)
+    opts = {'maxiter': 25}
+    rf = call(pf.solve, x=xi.astype(float), disregistry=di.astype(float), min_method='Nelder-Mead', min_options=dict(opts))
+    ri = call(pi.solve, x=xi, disregistry=di, min_method='Nelder-Mead', min_options=dict(opts))
+    ctx.stats.case('x:forms:solve-int', (case['system'], tuple(xi)))
+    if isinstance(ri, Raised) and not isinstance(rf, Raised):
+        bad('raises', f'solve(x=<int64>, disregistry=<int64>) {ri}; the same guess as float64 is accepted {tag}')
+    elif not isinstance(rf, Raised):
+        w = _rel(np.asarray(pi.disregistry, dtype=float), np.asarray(pf.disregistry, dtype=float), 1e-9)
+        if w:
+            bad('value', f'solve() from an integer-typed guess {di[:, 0].tolist()} stores another solution than from the same guess as float64 '
+                         f'(x component {np.asarray(pi.disregistry)[:, 0].tolist()} vs {np.round(np.asarray(pf.disregistry)[:, 0], 6).tolist()}): {w} {tag}')
+    # -- pn_arctan_* with x / burgers in other forms
+    b = np.array(pn.burgers, dtype=float)
+    r0 = am.defect.pn_arctan_disregistry(x=x, burgers=b, halfwidth=0.75, center=0.125)
+    q0 = am.defect.pn_arctan_disldensity(x=x, burgers=b, halfwidth=0.75, center=0.125)
+    for fnm, xa, ba in (('lists', x.tolist(), b.tolist()), ('tuples', tuple(x.tolist()), tuple(b.tolist())), ('strided views', bigx[::2], _forms_1d(np, b)[2][1]),
+                        ('read-only arrays', xro, _forms_1d(np, b)[3][1])):
+        for fname, fn, want in (('pn_arctan_disregistry', am.defect.pn_arctan_disregistry, r0), ('pn_arctan_disldensity', am.defect.pn_arctan_disldensity, q0)):
+            r = call(fn, x=xa, burgers=ba, halfwidth=0.75, center=0.125)
+            ctx.stats.case('x:forms:arctan', (case['system'], fname, fnm))
+            w = str(r) if isinstance(r, Raised) else (_rel(r[0], want[0], 1e-14) or _rel(r[1], want[1], 1e-13))
+            if w:
+                bad('value', f'{fname}(x=<{fnm}>, burgers=<{fnm}>): {w} {tag}')
+    r = call(am.defect.pn_arctan_disregistry, x=xi, burgers=[2, 0, 1], halfwidth=2, center=0)
+    want = am.defect.pn_arctan_disregistry(x=xi.astype(float), burgers=np.array([2.0, 0.0, 1.0]), halfwidth=2.0, center=0.0)
+    w = str(r) if isinstance(r, Raised) else _rel(r[1], want[1], 1e-13)
+    if w:
+        bad('value', f'pn_arctan_disregistry(x=<int64>, burgers=[2, 0, 1], halfwidth=2, center=0) (all integers): {w} {tag}')
+
+
+def xc_scale_gamma(ctx, case, bad):
+    """every length x 2^k, every energy x 2^j: all gamma-surface clauses hold with tolerances that scale along, and the two
+    documented refusals (x axis out of the plane; position off the plane) are decided by the RELATIVE geometry."""
+    np = _np()
+    k, j = case['k'], case['j']
+    sL, sE = 2.0 ** k, 2.0 ** j
+    spec = scale_spec(case['spec'], sL, sE)
+    when = f'lengths x 2^{k}, energies x 2^{j}: '
+    ctx.stats.case('x:scale:gamma', (case['spec']['tag'], k, j, case['spec']['n1'], case['spec']['n2']))
+    g = call(mk_gamma, spec)
+    if isinstance(g, Raised):
+        bad('construct', f'{when}GammaSurface(...) {g}')
+        return
+    _gamma_clauses(ctx, case, dict(case['sub'], spec=spec), g, when, unit=(sL, sE))
+    A1, A2 = o_cart(spec)
+    A1f, A2f = np.array([float(t) for t in A1]), np.array([float(t) for t in A2])
+    N = np.cross(A1f / sL, A2f / sL)
+    area = float(np.linalg.norm(N))
+    nh = N / area
+    q = case['sub']['queries']
+    q1, q2 = np.array([t[0] for t in q], dtype=float), np.array([t[1] for t in q], dtype=float)
+    P = np.outer(q1, A1f) + np.outer(q2, A2f)
+    tag = f'[{spec["tag"]} {spec["n1"]}x{spec["n2"]}]'
+    # x axis tilted out of the plane by the relative amount t: refused for t >= 1e-5, accepted for t <= 1e-12
+    for base_n, base in (('a1vect', A1f), ('a1vect - 2 a2vect', A1f - 2 * A2f)):
+        for t, must in ((0.0, True), (1e-12, True), (1e-5, False), (0.3, False)):
+            X = base + t * float(np.linalg.norm(base)) * nh
+            for nm, fn in (('pos_to_xy(pos, xvect=X)', lambda: g.pos_to_xy(P.copy(), xvect=X)), ('xy_to_pos(x, y, xvect=X)', lambda: g.xy_to_pos(q1, q2, xvect=X)),
+                           ('E_gsf(x=, y=, xvect=X)', lambda: g.E_gsf(x=q1 * sL, y=q2 * sL, xvect=X))):
+                r = call(fn)
+                ctx.stats.case('x:scale:xvect', (spec['tag'], k, base_n, t, nm))
+                refused = isinstance(r, Raised) and r.cls == 'err:value'
+                if must and isinstance(r, Raised):
+                    bad('refusal', f'{when}{nm} with X = {base_n} + {t} |X| n (in the plane to {t}) {r} {tag}')
+                elif not must and not refused:
+                    bad('refusal', f'{when}{nm} with the x axis X = {base_n} + {t} |X| n, tilted out of the plane, is '
+                                   f'{"answered" if not isinstance(r, Raised) else str(r)} instead of refused with ValueError {tag}')
+    # positions lifted off the plane by h * sqrt(|A1 x A2|): refused for h >= 1e-3, accepted for h <= 1e-9 (|a1|, |a2| <= 3)
+    for h, must in ((0.0, True), (1e-9, True), (1e-3, False), (0.25, False)):
+        Ph = P + h * math.sqrt(area) * sL * nh
+        for nm, fn in (('pos_to_a12(pos)', lambda: g.pos_to_a12(Ph.copy())), ('E_gsf(pos=)', lambda: g.E_gsf(pos=Ph.copy())), ('pos_to_a12(one position)', lambda: g.pos_to_a12(Ph[0].copy()))):
+            r = call(fn)
+            ctx.stats.case('x:scale:plane', (spec['tag'], k, h, nm))
+            refused = isinstance(r, Raised) and r.cls == 'err:assert'
+            if must and isinstance(r, Raised):
+                bad('refusal', f'{when}{nm} for positions {h} sqrt|a1vect x a2vect| off the plane {r} {tag}')
+            elif not must and not refused:
+                bad('refusal', f'{when}{nm} for positions {h} sqrt|a1vect x a2vect| OFF the plane is '
+                               f'{"answered" if not isinstance(r, Raised) else str(r)} instead of refused (AssertionError) {tag}')
+    # queries far away (|a| up to 2^40): wrapped in one step, same value as the reduced point
+    far = np.array([2.0 ** 40 + 0.25, -2.0 ** 33 + 0.5, 1e6 + 0.125, -12345678.0 + 0.375])
+    r = call(g.E_gsf, a1=far.copy(), a2=far[::-1].copy())
+    want = call(g.E_gsf, a1=np.array([0.25, 0.5, 0.125, 0.375]), a2=np.array([0.375, 0.125, 0.5, 0.25]))
+    w = str(r) if isinstance(r, Raised) else str(want) if isinstance(want, Raised) else _rel(r, want, 0.0, 1e-6 * max(abs(t) for t in spec['E']))
+    if w:
+        bad('far', f'{when}E_gsf at a1 = {far.tolist()} (dyadic fractions + huge integers) != E_gsf at the reduced points: {w} {tag}')
+
+
+def xc_scale_sdvpn(ctx, case, bad):
+    """every length x 2^k, every modulus x 2^j: the six terms against their formulas, and the documented refusals
+    (unevenly spaced x, out-of-plane disregistry, Burgers vector out of the slip plane, incompatible arctan grid)
+    decided by RELATIVE deviations."""
+    import atomman as am
+    np = _np()
+    k, j = case['k'], case['j']
+    LU, PU = 2.0 ** k, 2.0 ** j
+    EU, ELU = PU * LU, PU * LU * LU
+    when = f'lengths x 2^{k}, moduli x 2^{j}: '
+    tag = f'[{case["system"]}]'
+    ctx.stats.case('x:scale:sdvpn', (case['system'], k, j, tuple(case['x'])))
+    r = call(mk_volterra, case['system'], LU, PU)
+    if isinstance(r, Raised):
+        bad('construct', f'{when}solve_volterra_dislocation {r} {tag}')
+        return
+    v, _ = r
+    sp = scale_spec(case['spec'], LU, EU)
+    g = call(mk_gamma, sp)
+    st = scale_settings(case['settings'], LU, PU)
+    pn = g if isinstance(g, Raised) else call(new_pn, v, g, st)
+    if isinstance(pn, Raised):
+        bad('construct', f'{when}{pn} {tag}')
+        return
+    K, b, T = exact_frame(v)
+    A1, A2 = o_cart(sp)
+    x, d = np.array(case['x']) * LU, np.array(case['d']) * LU
+    _check_terms(ctx, case, bad, pn, g, K, b, T, A1, A2, st, x, d, True, when + 'fresh object', max(abs(t) for t in sp['E']), eunit=ELU, punit=1.0)
+    # refusals
+    dx = float(x[1] - x[0])
+    for t, must in ((0.0, True), (1e-12, True), (0.3, False), (1e-3, False)):
+        xb = x.copy()
+        xb[len(x) // 2] += t * dx
+        r = call(setattr, pn, 'x', xb)
+        ctx.stats.case('x:scale:refusal', (case['system'], k, 'x', t))
+        if must and isinstance(r, Raised):
+            bad('refusal', f'{when}obj.x = <grid with one point moved by {t} of the spacing> {r} {tag}')
+        elif not must and not (isinstance(r, Raised) and r.cls == 'err:assert'):
+            bad('refusal', f'{when}obj.x = <grid with one point moved by {t} of the spacing> is accepted instead of refused (evenly spaced x required) {tag}')
+    bmag = float(np.linalg.norm(b))
+    for t, must in ((0.0, True), (1e-13, True), (0.5, False), (1e-3, False)):
+        db = d.copy()
+        db[len(d) // 2, 1] = t * bmag
+        r = call(setattr, pn, 'disregistry', db)
+        ctx.stats.case('x:scale:refusal', (case['system'], k, 'y', t))
+        if must and isinstance(r, Raised):
+            bad('refusal', f'{when}obj.disregistry = <y component {t} |b| at one point> {r} {tag}')
+        elif not must and not (isinstance(r, Raised) and r.cls == 'err:assert'):
+            bad('refusal', f'{when}obj.disregistry = <y component {t} |b| at one point> is accepted instead of refused (out-of-plane disregistry not supported) {tag}')
+    # an arctangent grid given consistently / inconsistently
+    n_ = 2 * len(x) + 1
+    for fac, must in ((1.0, True), (1.3, False), (1.001, False)):
+        for fname in ('pn_arctan_disregistry', 'pn_arctan_disldensity'):
+            r = call(getattr(am.defect, fname), xmax=(n_ - 1) / 2 * 0.25 * LU, xstep=0.25 * LU * fac, xnum=n_, burgers=b)
+            ctx.stats.case('x:scale:refusal', (case['system'], k, fname, fac))
+            if must and (isinstance(r, Raised) or len(r[0]) != n_ or _rel(r[0], (np.arange(n_) - (n_ - 1) / 2) * 0.25 * LU, 1e-13)):
+                bad('refusal', f'{when}{fname}(xmax, xstep, xnum) with consistent values: {r if isinstance(r, Raised) else "wrong grid"} {tag}')
+            elif not must and not (isinstance(r, Raised) and r.cls == 'err:value'):
+                bad('refusal', f'{when}{fname}(xmax, xstep x {fac}, xnum) (incompatible) is accepted instead of refused with ValueError {tag}')
+    # Burgers vector out of the slip plane
+    C = am.ElasticConstants(E=1.2 * PU, nu=0.3)
+    for t, must in ((0.0, True), (0.3, False), (1e-3, False)):
+        vb = call(lambda: am.defect.solve_volterra_dislocation(C, burgers=[2.5 * LU, t * 2.5 * LU, 0.0], transform=np.eye(3)))
+        if isinstance(vb, Raised):
+            continue
+        gs = mk_gamma(scale_spec(gen_gamma_spec(random.Random(1), regime='generic', vects=([2.5, 0.0, 0.0], [0.0, 0.0, 4.0], None, 'rect-xz'), grid=(4, 3), dup=False, delta=False, sinus=0.05), LU, EU))
+        r = call(lambda: am.defect.SDVPN(volterra=vb, gamma=gs))
+        ctx.stats.case('x:scale:refusal', (case['system'], k, 'burgers', t))
+        if must and isinstance(r, Raised):
+            bad('refusal', f'{when}SDVPN(volterra=<b in the slip plane>, gamma=) {r} {tag}')
+        elif not must and not (isinstance(r, Raised) and r.cls == 'err:value'):
+            bad('refusal', f'{when}SDVPN(volterra=<Burgers vector with a component {t} |b| normal to the slip plane>, gamma=) is accepted instead of refused {tag}')
+
+
+def xc_falsy(ctx, case, bad):
+    """falsy-but-valid values are VALUES, not "not given": alpha=0 / 0.0 / [] / [0.0], tau / beta of zeros, flags False,
+    empty option dicts, a cut-off given as 0 -- through the constructor, the setters, solve() and load(); queries at
+    a1 = a2 = 0 / x = y = 0 / pos = 0; all-zero energies or plane separations; a K tensor with zero rows (loaded)."""
+    import atomman as am
+    np = _np()
+    v, g, A1, A2, scale = _system(case)
+    st = case['settings']
+    tag = f'[{case["system"]}]'
+    x, d = np.array(case['x'], dtype=float), np.array(case['d'], dtype=float)
+    mod = sys.modules['atomman.defect.SDVPN']
+    K, b, T = exact_frame(v)
+    zero3 = [[0.0] * 3 for _ in range(3)]
+    for how in ('solve', 'setters', 'constructor'):
+        for an, av, want_alpha in (('0.0', 0.0, [0.0]), ('0', 0, [0.0]), ('[]', [], []), ('[0.0]', [0.0], [0.0]), ('(0.0, 0.0)', (0.0, 0.0), [0.0, 0.0]), ('numpy.float64(0)', np.float64(0.0), [0.0])):
+            ctx.stats.case('x:falsy', (case['system'], how, an))
+            new = {'alpha': av, 'tau': np.zeros((3, 3)), 'beta': np.zeros((3, 3)), 'fullstress': False, 'cdiffelastic': False, 'cdiffsurface': False, 'cdiffstress': False}
+            want = dict(st, alpha=want_alpha, tau=zero3, beta=zero3, fullstress=False, cdiffelastic=False, cdiffsurface=False, cdiffstress=False)
+
+            def build():
+                if how == 'constructor':
+                    return am.defect.SDVPN(volterra=v, gamma=g, cutofflongrange=st['cutofflongrange'], **new)
+                # every setting non-zero / True first
+                p = am.defect.SDVPN(volterra=v, gamma=g, tau=np.array(st['tau']) + 0.01, alpha=[0.05, 0.02], beta=np.array(st['beta']) + 0.02,
+                                    cutofflongrange=st['cutofflongrange'], fullstress=True, cdiffelastic=True, cdiffsurface=True, cdiffstress=True,
+                                    min_method='Nelder-Mead', min_options={'maxfev': 3}, min_kwargs={'tol': 0.5})
+                if how == 'setters':
+                    for k_, val in new.items():
+                        setattr(p, k_, val)
+                    p.min_options, p.min_kwargs = {}, {}
+                    return p
+                real = mod.minimize
+                mod.minimize = _FakeMin(random.Random(2))
+                try:
+                    p.solve(x=x, disregistry=d, min_options={}, min_kwargs={}, **new)
+                finally:
+                    mod.minimize = real
+                return p
+            p = call(build)
+            if isinstance(p, Raised):
+                bad('raises', f'alpha={an}, tau=zeros, beta=zeros, flags False through the {how}: {p} {tag}')
+                continue
+            w = _state_diff(_sdvpn_state(p), want)
+            if not w and how != 'constructor' and (p.min_options != {} or p.min_kwargs != {}):
+                w = f'min_options = {p.min_options}, min_kwargs = {p.min_kwargs} after {{}} was given'
+            if w:
+                bad('ignored', f'alpha={an}, tau=zeros, beta=zeros, all flags False (and empty option dicts) given through the {how} on an object whose settings '
+                               f'were all non-zero / True: {w} {tag}')
+                continue
+            e = {t: call(getattr(p, t + '_energy'), x, d) for t in ('nonlocal', 'stress', 'surface')}
+            if any(isinstance(val, Raised) or float(val) != 0.0 for val in e.values()):
+                bad('ignored', f'after alpha={an}, tau=zeros, beta=zeros through the {how}: nonlocal / stress / surface energies {[str(val) for val in e.values()]} are not 0 {tag}')
+    # a cut-off of 0 is stored as given (its logarithm is the caller's business), not replaced by the default
+    for how in ('constructor', 'setter', 'solve'):
+        p = am.defect.SDVPN(volterra=v, gamma=g, cutofflongrange=(0 if how == 'constructor' else 50.0))
+        if how == 'setter':
+            p.cutofflongrange = 0.0
+        elif how == 'solve':
+            real = mod.minimize
+            mod.minimize = _FakeMin(random.Random(3))
+            try:
+                r = call(p.solve, x=x, disregistry=d, cutofflongrange=0)
+            finally:
+                mod.minimize = real
+        ctx.stats.case('x:falsy:cutoff', (case['system'], how))
+        if p.cutofflongrange != 0.0:
+            bad('ignored', f'cutofflongrange=0 given through the {how}: the object has {p.cutofflongrange!r} {tag}')
+    # -- load(): a record with alpha [0.0], zero tau / beta, a K tensor with a zero row and column
+    src = new_pn(v, g, dict(st, alpha=[0.0], tau=zero3, beta=zero3))
+    src.x, src.disregistry = x, d
+    m = src.model()
+    par = m['semidiscrete-variational-Peierls-Nabarro']['parameter']
+    Kz = np.array(K, dtype=float)
+    Kz[2, :] = 0.0
+    Kz[:, 2] = 0.0
+    par['K_tensor']['value'] = np.asarray(am.unitconvert.get_in_units(Kz, par['K_tensor']['unit'])).ravel().tolist()
+    for form in ('dm', 'json', 'xml'):
+        p = call(lambda: am.defect.SDVPN(model={'dm': m, 'json': m.json(), 'xml': m.xml()}[form], gamma=g))
+        ctx.stats.case('x:falsy:load', (case['system'], form))
+        if isinstance(p, Raised):
+            bad('raises', f'loading a record with alpha [0.0], zero tau / beta and a K tensor whose third row and column are zero ({form}): {p} {tag}')
+            continue
+        stz = dict(st, alpha=[0.0], tau=zero3, beta=zero3)
+        w = _state_diff(_sdvpn_state(p), stz) or _rel(p.K_tensor, Kz, 1e-12)
+        if w:
+            bad('ignored', f'record with alpha [0.0], zero tau / beta, K with a zero row/column ({form}): {w} {tag}')
+            continue
+        _check_terms(ctx, case, bad, p, g, Kz, b, T, A1, A2, stz, x, d, 'none', f'loaded ({form}) record with zero alpha / tau / beta and a K tensor with a zero row', scale, stored=(x, d))
+    # -- gamma surface: queries at the origin in every falsy form; all-zero data
+    spec = case['spec']
+    e00 = spec['E'][[i for i in range(len(spec['a1'])) if spec['a1'][i] == 0 and spec['a2'][i] == 0][0]]
+    tol = (256 * EPS * o_fit_cond(spec) + 1e-9) * scale
+    for nm, kw in (('a1=0, a2=0', dict(a1=0, a2=0)), ('a1=0.0, a2=0.0', dict(a1=0.0, a2=0.0)), ('a1=[0], a2=[0]', dict(a1=[0], a2=[0])), ('x=0, y=0', dict(x=0, y=0)),
+                   ('x=0.0, y=0.0', dict(x=0.0, y=0.0)), ('pos=[0, 0, 0]', dict(pos=[0, 0, 0])), ('pos=zeros(3)', dict(pos=np.zeros(3))), ('pos=zeros((2, 3))', dict(pos=np.zeros((2, 3)))),
+                   ('a1=0, a2=0, smooth=False', dict(a1=0, a2=0, smooth=False)), ('a1=False, a2=False', dict(a1=False, a2=False))):
+        r = call(g.E_gsf, **kw)
+        ctx.stats.case('x:falsy:origin', (case['system'], nm))
+        if isinstance(r, Raised) or not np.all(np.abs(np.asarray(r, dtype=float) - e00) <= tol):
+            bad('origin', f'E_gsf({nm}) = {r!s}, the energy sampled at the origin is {e00!r} {tag}')
+    r = call(g.a12_to_pos, 0, 0)
+    if isinstance(r, Raised) or np.any(np.asarray(r) != 0):
+        bad('origin', f'a12_to_pos(0, 0) = {r!s} {tag}')
+    n = len(spec['a1'])
+    gz = call(lambda: am.defect.GammaSurface(a1vect=spec['a1vect'], a2vect=spec['a2vect'], a1=spec['a1'], a2=spec['a2'], E_gsf=[0.0] * n, delta=[0] * n, box=mk_box(spec)))
+    ctx.stats.case('x:falsy:zero-data', (case['system'],))
+    if isinstance(gz, Raised):
+        bad('raises', f'GammaSurface with all-zero energies and plane separations: {gz} {tag}')
+    else:
+        r1, r2 = call(gz.E_gsf, a1=[0.3, 1.7], a2=[0.2, -0.4]), call(gz.delta, a1=[0.3, 1.7], a2=[0.2, -0.4])
+        if isinstance(r1, Raised) or isinstance(r2, Raised) or np.any(np.abs(r1) > 1e-12) or np.any(np.abs(r2) > 1e-12):
+            bad('origin', f'GammaSurface with all-zero energies and plane separations: E_gsf -> {r1!s}, delta -> {r2!s} (delta was GIVEN, as zeros) {tag}')
+        m2 = call(lambda: am.defect.GammaSurface(model=gz.model().json()))
+        if isinstance(m2, Raised) or 'delta' not in m2.data:
+            bad('origin', f'all-zero plane separations do not survive the data-model round trip: {m2 if isinstance(m2, Raised) else "column lost"} {tag}')
+
+
+def xc_order(ctx, case, bad):
+    """positional arguments in the DOCUMENTED order mean what the keywords mean (constructors, set, solve, model, load,
+    every conversion, disldensity, check_energies, pn_arctan_*)."""
+    import atomman as am
+    np = _np()
+    v, g0, A1, A2, scale = _system(case)
+    spec = case['gspec']
+    st = case['settings']
+    x, d = np.array(case['x'], dtype=float), np.array(case['d'], dtype=float)
+    tag = f'[{case["system"]}, {spec["tag"]}]'
+    G, S = am.defect.GammaSurface, am.defect.SDVPN
+    box = mk_box(spec)
+    a1, a2, E = np.array(spec['a1']), np.array(spec['a2']), np.array(spec['E'])
+    D = None if spec['delta'] is None else np.array(spec['delta'])
+    q1, q2 = np.array([0.3, 1.7, -2.2]), np.array([0.1, -0.4, 0.9])
+
+    def same_gamma(nm, gp, gk):
+        ctx.stats.case('x:order', (case['system'], nm))
+        if isinstance(gp, Raised) or isinstance(gk, Raised):
+            bad('raises', f'{nm} {gp if isinstance(gp, Raised) else gk} {tag}')
+            return
+        k = _obs_diff(_gamma_obs(gk, q1, q2, gk.a12_to_pos(q1, q2), np.array(gk.a12_to_xy(q1, q2))), _gamma_obs(gp, q1, q2, gk.a12_to_pos(q1, q2), np.array(gk.a12_to_xy(q1, q2))))
+        if k:
+            bad('differs', f'{nm}: positional arguments in the documented order build another object than the keywords ({k}) {tag}')
+    gk = call(lambda: G(a1vect=spec['a1vect'], a2vect=spec['a2vect'], a1=a1, a2=a2, E_gsf=E, box=box, delta=D))
+    same_gamma('GammaSurface(None, a1vect, a2vect, a1, a2, E_gsf, box, delta)', call(lambda: G(None, spec['a1vect'], spec['a2vect'], a1, a2, E, box, D)), gk)
+
+    def via_set():
+        gg = mk_gamma(case['first'])
+        gg.set(spec['a1vect'], spec['a2vect'], a1, a2, E, box, D)
+        return gg
+    same_gamma('set(a1vect, a2vect, a1, a2, E_gsf, box, delta)', call(via_set), gk)
+    if not isinstance(gk, Raised):
+        mk_ = call(lambda: gk.model(None, 'nm', 'J/m^2'))
+        mw = gk.model(length_unit='nm', energyperarea_unit='J/m^2')
+        ctx.stats.case('x:order', (case['system'], 'model'))
+        if isinstance(mk_, Raised) or mk_.json() != mw.json():
+            bad('differs', f'model(None, \'nm\', \'J/m^2\') != model(length_unit=\'nm\', energyperarea_unit=\'J/m^2\') {tag}')
+        w1 = np.array(vec3(spec['a1vect']), dtype=float) + np.array(vec3(spec['a2vect']), dtype=float)
+        w2 = np.array(vec3(spec['a2vect']), dtype=float)
+        P = gk.a12_to_pos(q1, q2)
+        X = np.dot(w2, gk.box.vects)
+        xy = gk.a12_to_xy(q1, q2, xvect=X)
+        for nm, fp, fk in (('a12_to_pos(a1, a2, a1vect, a2vect)', lambda: gk.a12_to_pos(q1, q2, w1, w2), lambda: gk.a12_to_pos(a1=q1, a2=q2, a1vect=w1, a2vect=w2)),
+                           ('pos_to_xy(pos, xvect)', lambda: gk.pos_to_xy(P, X), lambda: gk.pos_to_xy(pos=P, xvect=X)),
+                           ('a12_to_xy(a1, a2, a1vect, a2vect, xvect)', lambda: gk.a12_to_xy(q1, q2, w1, w2, X), lambda: gk.a12_to_xy(a1=q1, a2=q2, a1vect=w1, a2vect=w2, xvect=X)),
+                           ('pos_to_a12(pos, a1vect, a2vect)', lambda: gk.pos_to_a12(P, w1, w2), lambda: gk.pos_to_a12(pos=P, a1vect=w1, a2vect=w2)),
+                           ('xy_to_pos(x, y, xvect)', lambda: gk.xy_to_pos(xy[0], xy[1], X), lambda: gk.xy_to_pos(x=xy[0], y=xy[1], xvect=X)),
+                           ('xy_to_a12(x, y, a1vect, a2vect, xvect)', lambda: gk.xy_to_a12(xy[0], xy[1], w1, w2, X), lambda: gk.xy_to_a12(x=xy[0], y=xy[1], a1vect=w1, a2vect=w2, xvect=X))):
+            rp, rk = call(fp), call(fk)
+            ctx.stats.case('x:order', (case['system'], nm))
+            if isinstance(rp, Raised) or isinstance(rk, Raised) or not np.array_equal(np.array(rp), np.array(rk)):
+                bad('differs', f'{nm} (positional) != the same call with keywords: {rp!s} vs {rk!s} {tag}')
+    # SDVPN
+    tau, beta, al = np.array(st['tau']), np.array(st['beta']), list(st['alpha'])
+    fl = [st[f] for f in FLAGS]
+    pk = call(lambda: S(volterra=v, gamma=g0, tau=tau, alpha=al, beta=beta, cutofflongrange=st['cutofflongrange'], fullstress=fl[0], cdiffelastic=fl[1],
+                        cdiffsurface=fl[2], cdiffstress=fl[3], min_method='Nelder-Mead', min_kwargs={'tol': 0.5}, min_options={'maxfev': 4}))
+    pp = call(lambda: S(v, g0, None, tau, al, beta, st['cutofflongrange'], fl[0], fl[1], fl[2], fl[3], 'Nelder-Mead', {'tol': 0.5}, {'maxfev': 4}))
+    mod = sys.modules['atomman.defect.SDVPN']
+
+    def same_pn(nm, p1, p2):
+        ctx.stats.case('x:order', (case['system'], nm))
+        if isinstance(p1, Raised) or isinstance(p2, Raised):
+            bad('raises', f'{nm} {p1 if isinstance(p1, Raised) else p2} {tag}')
+            return False
+        for p_ in (p1, p2):
+            if p_.res is None or True:
+                try:
+                    p_.x
+                except Exception:  # noqa
+                    p_.x, p_.disregistry = x, d
+        k = _obs_diff(_sdvpn_obs(p2), _sdvpn_obs(p1))
+        if k:
+            bad('differs', f'{nm}: positional arguments in the documented order give another object than the keywords ({k}) {tag}')
+            return False
+        return True
+    same_pn('SDVPN(volterra, gamma, model, tau, alpha, beta, cutofflongrange, fullstress, cdiffelastic, cdiffsurface, cdiffstress, min_method, min_kwargs, min_options)', pp, pk)
+
+    def solved(positional):
+        p = S(volterra=v, gamma=g0)
+        real = mod.minimize
+        mod.minimize = _FakeMin(random.Random(5))
+        try:
+            if positional:
+                p.solve(x, d, tau, al, beta, st['cutofflongrange'], fl[0], fl[1], fl[2], fl[3], 'Nelder-Mead', {'tol': 0.5}, {'maxfev': 4})
+            else:
+                p.solve(x=x, disregistry=d, tau=tau, alpha=al, beta=beta, cutofflongrange=st['cutofflongrange'], fullstress=fl[0], cdiffelastic=fl[1],
+                        cdiffsurface=fl[2], cdiffstress=fl[3], min_method='Nelder-Mead', min_kwargs={'tol': 0.5}, min_options={'maxfev': 4})
+        finally:
+            mod.minimize = real
+        return p
+    same_pn('solve(x, disregistry, tau, alpha, beta, cutofflongrange, fullstress, cdiffelastic, cdiffsurface, cdiffstress, min_method, min_kwargs, min_options)',
+            call(solved, True), call(solved, False))
+    if not isinstance(pk, Raised):
+        pk.x, pk.disregistry = x, d
+        for nm, fp, fk in (('disldensity(x, disregistry, cdiff)', lambda: pk.disldensity(x, d, True), lambda: pk.disldensity(x=x, disregistry=d, cdiff=True)),
+                           ('model(length_unit, energyperarea_unit, pressure_unit, include_gamma)', lambda: pk.model('nm', 'J/m^2', 'MPa', True).json(),
+                            lambda: pk.model(length_unit='nm', energyperarea_unit='J/m^2', pressure_unit='MPa', include_gamma=True).json()),
+                           ('check_energies(x, disregistry, energyperlength_unit)', lambda: sorted(_printed_energies_pos(pk, x, d, 'J/m').items()), lambda: sorted(_printed_energies(pk, {'x': x, 'disregistry': d}, 'J/m').items()))):
+            rp, rk = call(fp), call(fk)
+            ctx.stats.case('x:order', (case['system'], nm))
+            if isinstance(rp, Raised) or isinstance(rk, Raised) or (rp != rk if isinstance(rp, (str, list)) else any(not np.array_equal(a, b_) for a, b_ in zip(rp, rk))):
+                bad('differs', f'{nm} (positional) != the same call with keywords {tag}')
+        m = pk.model()
+        pl1, pl2 = call(lambda: S(volterra=None, gamma=g0, model=m)), S(volterra=v, gamma=g0)
+        r = call(pl2.load, m, g0)
+        same_pn('load(model, gamma)', r if isinstance(r, Raised) else pl2, pl1)
+    bv = [2.5, 0.0, 1.0]
+    for fname in ('pn_arctan_disregistry', 'pn_arctan_disldensity'):
+        fn = getattr(am.defect, fname)
+        extra = (True, False) if fname.endswith('disregistry') else (True,)
+        kwx = dict(normalize=True, shift=False) if fname.endswith('disregistry') else dict(normalize=True)
+        rp, rk = call(fn, None, 2.0, 0.25, None, bv, 0.125, 0.75, *extra), call(fn, xmax=2.0, xstep=0.25, burgers=bv, center=0.125, halfwidth=0.75, **kwx)
+        ctx.stats.case('x:order', (case['system'], fname))
+        if isinstance(rp, Raised) or isinstance(rk, Raised) or not (np.array_equal(rp[0], rk[0]) and np.array_equal(rp[1], rk[1])):
+            bad('differs', f'{fname}(x, xmax, xstep, xnum, burgers, center, halfwidth, normalize{", shift" if len(extra) == 2 else ""}) (positional) != keywords: {rp!s:.80} {tag}')
+
+
+def _printed_energies_pos(pn, x, d, unit):
+    import contextlib
+    import io
+    buf = io.StringIO()
+    with contextlib.redirect_stdout(buf):
+        pn.check_energies(x, d, unit)
+    out = {}
+    for line in buf.getvalue().splitlines():
+        if '=' in line:
+            k, val = line.split('=', 1)
+            if k.strip() in PRINTED:
+                out[PRINTED[k.strip()]] = float(val)
+    return out
+
+
+def xc_io(ctx, case, bad):
+    """a data model handed over as DataModelDict / JSON text / XML text / path / open binary handle / BytesIO (read ONCE)
+    loads the same object: GammaSurface(model=), model(model=), SDVPN(model=[, gamma=]) with the gamma surface inside the
+    record or given as an object / record / handle."""
+    import atomman as am
+    import io
+    import os
+    import tempfile
+    np = _np()
+    v, g0, A1, A2, scale = _system(case)
+    st = case['settings']
+    x, d = np.array(case['x'], dtype=float), np.array(case['d'], dtype=float)
+    tag = f'[{case["system"]}]'
+    gd = mk_gamma(case['gspec'])
+    pn = new_pn(v, g0, st)
+    pn.x, pn.disregistry = x, d
+    q1, q2 = np.array([0.3, 1.7, -2.2]), np.array([0.1, -0.4, 0.9])
+    tmp = tempfile.mkdtemp(prefix='c18_io_')
+    try:
+        def sources(m, stem):
+            out = [('DataModelDict', lambda: m), ('JSON text', lambda: m.json()), ('XML text', lambda: m.xml()), ('JSON text, indented', lambda: m.json(indent=4))]
+            for ext, txt in (('json', m.json()), ('xml', m.xml())):
+                path = os.path.join(tmp, f'{stem}.{ext}')
+                with open(path, 'w', encoding='utf-8') as f:
+                    f.write(txt)
+                out += [(f'path of a {ext} file', lambda path=path: path), (f'open binary handle of a {ext} file', lambda path=path: open(path, 'rb')),
+                        (f'BytesIO ({ext})', lambda txt=txt: io.BytesIO(txt.encode('utf-8')))]
+            return out
+        mg = gd.model(length_unit='nm', energyperarea_unit='J/m^2')
+        P, XY = gd.a12_to_pos(q1, q2), np.array(gd.a12_to_xy(q1, q2))
+        ref = _gamma_obs(am.defect.GammaSurface(model=mg), q1, q2, P, XY)
+        for sn, mk_ in sources(mg, 'gamma'):
+            for how in ('GammaSurface(model=)', 'model(model=) into a used object'):
+                ctx.stats.case('x:io:gamma', (case['gspec']['tag'], sn, how))
+
+                def load():
+                    src = mk_()
+                    try:
+                        if how.startswith('Gamma'):
+                            return am.defect.GammaSurface(model=src)
+                        gg = mk_gamma(case['first'])
+                        gg.model(model=src)
+                        return gg
+                    finally:
+                        if hasattr(src, 'close'):
+                            src.close()
+                gl = call(load)
+                k = str(gl) if isinstance(gl, Raised) else _obs_diff(ref, _gamma_obs(gl, q1, q2, P, XY))
+                if k:
+                    bad('gamma', f'{how} from a {sn}: {k} (the same record as a DataModelDict loads) {tag}')
+        for inc in (True, False):
+            mp = pn.model(include_gamma=inc, length_unit='nm', pressure_unit='MPa')
+            refp = _sdvpn_obs(am.defect.SDVPN(model=mp, **({} if inc else {'gamma': g0})))
+            gsrcs = [('none (inside the record)', lambda: None)] if inc else [('a GammaSurface', lambda: g0)] + [('a ' + sn, mk_) for sn, mk_ in sources(g0.model(), 'g0')]
+            for sn, mk_ in sources(mp, f'pn{int(inc)}'):
+                for gn, mkg in gsrcs[:1] + (gsrcs[1:] if sn == 'DataModelDict' else []):
+                    for how in ('SDVPN(model=)', 'load() into a used object'):
+                        ctx.stats.case('x:io:sdvpn', (case['system'], inc, sn, gn, how))
+
+                        def load():
+                            src, gs = mk_(), mkg()
+                            try:
+                                kw = {} if gs is None else {'gamma': gs}
+                                if how.startswith('SDVPN'):
+                                    return am.defect.SDVPN(model=src, **kw)
+                                pp = new_pn(v, g0, rand_settings(random.Random(7)))
+                                pp.load(src, **kw)
+                                return pp
+                            finally:
+                                for s_ in (src, gs):
+                                    if hasattr(s_, 'close'):
+                                        s_.close()
+                        pl = call(load)
+                        k = str(pl) if isinstance(pl, Raised) else _obs_diff(refp, _sdvpn_obs(pl))
+                        if k:
+                            bad('sdvpn', f'{how} from a {sn}, gamma surface: {gn} (include_gamma={inc}): {k} (the same record as a DataModelDict loads) {tag}')
+    finally:
+        import shutil
+        shutil.rmtree(tmp, ignore_errors=True)
+
+
+def xc_twice(ctx, case, bad):
+    """the same object solved repeatedly with DIFFERENT guesses / grids / after a load: each solve starts from the guess
+    it is given (or the stored solution), keeps ITS end disregistries and x, and never ends above the energy of its start."""
+    np = _np()
+    v, g, A1, A2, scale = _system(case)
+    st = case['settings']
+    tag = f'[{case["system"]}]'
+    pn = call(new_pn, v, g, st)
+    if isinstance(pn, Raised):
+        bad('construct', f'{pn} {tag}')
+        return
+    hist = []
+    for k, step in enumerate(case['steps']):
+        kw = {}
+        if step.get('x') is not None:
+            kw['x'] = np.array(step['x'], dtype=float)
+        if step.get('d') is not None:
+            kw['disregistry'] = np.array(step['d'], dtype=float)
+        hist.append('solve(' + ', '.join(k_ + '=' for k_ in kw) + ')')
+        xs = kw['x'] if 'x' in kw else np.array(pn.x, dtype=float).copy()
+        ds = kw['disregistry'] if 'disregistry' in kw else np.array(pn.disregistry, dtype=float).copy()
+        when = f'{" -> ".join(hist)} on one object (step {k + 1})'
+        ctx.stats.case('x:twice', (case['system'], when, tuple(xs), tuple(ds.ravel())))
+        e0 = call(pn.total_energy, xs, ds)
+        r = call(pn.solve, **{k_: a.copy() for k_, a in kw.items()}, min_method=step['method'], min_options=dict(step['options']))
+        if isinstance(r, Raised) or isinstance(e0, Raised):
+            bad('raises', f'{when}: {r if isinstance(r, Raised) else e0} {tag}')
+            return
+        got = np.asarray(pn.disregistry, dtype=float)
+        if got.shape != ds.shape or not np.array_equal(got[0], ds[0]) or not np.array_equal(got[-1], ds[-1]):
+            bad('ends', f'{when}: end disregistries {got[0].tolist()}, {got[-1].tolist()} are not those of the guess this solve started from '
+                        f'({ds[0].tolist()}, {ds[-1].tolist()}) {tag}')
+            return
+        if not np.array_equal(np.asarray(pn.x, dtype=float), xs):
+            bad('ends', f'{when}: x is not the grid this solve was given {tag}')
+            return
+        if np.any(got[1:-1, 1] != 0.0):
+            bad('ends', f'{when}: non-zero out-of-plane disregistry {tag}')
+        e1 = call(pn.total_energy)
+        if isinstance(e1, Raised) or not float(e1) <= float(e0) + 1e-12 * (abs(float(e0)) + 1.0):
+            bad('raises-energy', f'{when}: total energy {float(e0)!r} of the start -> {e1!s} {tag}')
+            return
+        if pn.res is None or not np.array_equal(np.concatenate([got[1:-1, 0], got[1:-1, 2]]), np.asarray(pn.res.x, dtype=float)):
+            bad('ends', f'{when}: the stored disregistry is not the minimiser\'s result (obj.res.x) between the fixed ends {tag}')
+
+
+def xc_lazy(ctx, case, bad):
+    """the ORDER in which a (re)loaded surface is read does not matter: twin objects given the same data, one asked for
+    delta first, one for E_gsf first (smoothed or nearest, through any entry point), answer the same -- the input data
+    at the sampled shifts."""
+    np = _np()
+    specs = case['specs']
+    tag = f'[{" -> ".join(s_["tag"] + " " + str(s_["n1"]) + "x" + str(s_["n2"]) for s_ in specs)}]'
+    orders = case['orders']
+    twins = [call(mk_gamma, specs[0]) for _ in orders]
+    if any(isinstance(t, Raised) for t in twins):
+        bad('construct', f'{twins} {tag}')
+        return
+    for k, spec in enumerate(specs):
+        if k > 0:
+            for t in twins:
+                r = call(reload_gamma, t, spec, case['hows'][k - 1])
+                if isinstance(r, Raised):
+                    bad('raises', f'reload {r} {tag}')
+                    return
+        s1, s2 = np.array(spec['a1']), np.array(spec['a2'])
+        A1, A2 = o_cart(spec)
+        P = np.array([[float(t) for t in o_pos(A1, A2, (FF(a), FF(b_)))] for a, b_ in zip(s1, s2)])
+        scale = max(1.0, max(abs(t) for t in spec['E']))
+        dscale = max(1.0, max(abs(t) for t in spec['delta']))
+        tol = 256 * EPS * o_fit_cond(spec) + 1e-9
+        c1_, c2_ = (1 - max(spec['a1'])) / 2, (1 - max(spec['a2'])) / 2
+        inner = np.array([not ((c1_ < 1e-9 and abs(a - round(a)) < 1e-9) or (c2_ < 1e-9 and abs(b_ - round(b_)) < 1e-9)) for a, b_ in zip(s1, s2)])
+        reads = {'E': (lambda t: t.E_gsf(a1=s1.copy(), a2=s2.copy()), spec['E'], tol * scale, None),
+                 'delta': (lambda t: t.delta(a1=s1.copy(), a2=s2.copy()), spec['delta'], tol * dscale, None),
+                 'E-nearest': (lambda t: t.E_gsf(a1=s1.copy(), a2=s2.copy(), smooth=False), spec['E'], 1e-12 * scale, None),
+                 'delta-nearest': (lambda t: t.delta(a1=s1.copy(), a2=s2.copy(), smooth=False), spec['delta'], 1e-12 * dscale, None),
+                 'E-pos': (lambda t: t.E_gsf(pos=P.copy()), spec['E'], tol * scale, inner),
+                 'delta-pos': (lambda t: t.delta(pos=P.copy(), smooth=False), spec['delta'], 1e-12 * dscale, inner)}
+        for t, order in zip(twins, orders):
+            for rd in order:
+                fn, want, tl, mask = reads[rd]
+                r = call(fn, t)
+                ctx.stats.case('x:lazy', (spec['tag'], k, tuple(order), rd))
+                w = str(r) if isinstance(r, Raised) else _rel(np.asarray(r, dtype=float)[mask] if mask is not None else r, np.asarray(want)[mask] if mask is not None else want, 0.0, tl)
+                if w:
+                    bad('order', f'{"fresh object" if k == 0 else "after " + str(case["hows"][k - 1]) + " into a used object"}, reads in the order {list(order)}: '
+                                 f'{rd} at the sampled shifts is not the input: {w} {tag}')
+                    return
+
+
+XCUT = {'units': xc_units, 'unitswitch': xc_unitswitch, 'alias-gamma': xc_alias_gamma, 'alias-sdvpn': xc_alias_sdvpn, 'forms-gamma': xc_forms_gamma,
+        'forms-sdvpn': xc_forms_sdvpn, 'scale-gamma': xc_scale_gamma, 'scale-sdvpn': xc_scale_sdvpn, 'falsy': xc_falsy, 'order': xc_order, 'io': xc_io,
+        'twice': xc_twice, 'lazy': xc_lazy}
+
+
+def chk_xcut(ctx, case):
+    kind = case['kind']
+
+    def bad(key, what):
+        ctx.violate(f'xcut:{kind}:{key}', f'[{kind}] {what}', case)
+    try:
+        XCUT[kind](ctx, case, bad)
+    finally:
+        set_units({'kw': DEFAULT_UNITS})
+
+
+def gen_xcut_cases(ctx, rng, broken):
+    """the cases of the cross-cutting classes for one run (all JSON-able)."""
+    np = _np()
+    import atomman as am
+    cases = []
+    big = 4 if (broken or ctx.thorough) else 2
+    iso = ['iso-edge', 'iso-screw', 'iso-mixed-rot']
+
+    def sdvpn_part(name, n=None, physical=False, dyadic=True):
+        v, spec = mk_system(name, rng, grid=rng.choice([(8, 3), (6, 4)]))
+        pn0 = am.defect.SDVPN(volterra=v, gamma=mk_gamma(spec))
+        x, d = _profile_json(rng, pn0, dyadic=dyadic, n=n or rng.randint(6, 9))
+        return {'system': name, 'spec': spec, 'settings': rand_settings(rng, physical=physical), 'x': x, 'd': d}
+
+    def gamma_part(regime=None, delta=None, vects=None, grid=None, dup=None):
+        regime = regime or rng.choice(['dyadic', 'generic'])
+        return gen_gamma_spec(rng, regime=regime, vects=vects or rng.choice(VECTS), grid=grid or rng.choice(GRIDS_DYADIC[:4] if regime == 'dyadic' else GRIDS_GENERIC[:6]),
+                              dup=dup, delta=delta)
+    seeds = [rng.randrange(1, 10 ** 6) for _ in range(2 * big)]
+    cfgs = UNIT_CFGS[:5] + [{'name': f'seed-{s_}', 'seed': s_} for s_ in seeds]
+    pick = cfgs if (broken or ctx.thorough) else [UNIT_CFGS[0], rng.choice(UNIT_CFGS[1:5]), cfgs[5]]
+    mu = [('nm', 'MPa', 'J/m^2'), ('pm', 'GPa', 'mJ/m^2'), ('angstrom', 'eV/angstrom^3', 'eV/angstrom^2'), ('m', 'Pa', 'J/m^2')]
+    for cfg in pick:
+        gs = gamma_part(dup=False)
+        cases.append(dict(sdvpn_part(rng.choice(iso), physical=True, dyadic=False), op='xcut', kind='units', cfg=cfg, gspec=gs, sub=gen_gamma_sub(rng, gs, small=True),
+                          model_units=list(rng.choice(mu)), solves=[['Nelder-Mead', {'maxiter': 40}], ['Powell', {'maxiter': 1}]]))
+    for _ in range(2 * big):
+        c1, c2 = rng.sample(cfgs + [UNIT_CFGS[5]], 2)
+        cases.append(dict(sdvpn_part(rng.choice(iso)), op='xcut', kind='unitswitch', cfg1=c1, cfg2=c2, gspec=gamma_part(dup=False, delta=True),
+                          model_units=list(rng.choice(mu)), form=rng.choice(['dm', 'json', 'xml'])))
+    for via in ['ctor', 'set'] * big:
+        sp = gamma_part(regime='dyadic', delta=rng.random() < 0.6)
+        cases.append({'op': 'xcut', 'kind': 'alias-gamma', 'spec': sp, 'via': via, 'first': gamma_part(),
+                      'queries': [[cm.dyadic(rng, -3, 3, 4), cm.dyadic(rng, -3, 3, 4)] for _ in range(4)]})
+    for via in ['ctor', 'setters', 'solve'] * big:
+        cases.append(dict(sdvpn_part(rng.choice(SYSTEMS)), op='xcut', kind='alias-sdvpn', via=via, seed=rng.randrange(10 ** 6)))
+    intv = [vv for vv in VECTS if all(float(4 * t) == round(float(4 * t)) for t in sum(o_cart({'a1vect': vv[0], 'a2vect': vv[1], 'box': vv[2]}), []))]
+    for it in range(2 * big):
+        # every other case in a cell whose Cartesian shift vectors are multiples of 1/4 (integer-typed positions exist there);
+        # the others with generic (not float32-representable) numbers
+        sp = gamma_part(delta=True, vects=(rng.choice(intv) if it % 2 == 0 else None), regime=(None if it % 2 == 0 else 'generic'))
+        cases.append({'op': 'xcut', 'kind': 'forms-gamma', 'spec': sp,
+                      'queries': [[cm.dyadic(rng, -3, 3, 4), cm.dyadic(rng, -3, 3, 4)] if sp['regime'] == 'dyadic' else [rng.uniform(-3, 3), rng.uniform(-3, 3)] for _ in range(4)]})
+    for _ in range(big):
+        cases.append(dict(sdvpn_part(rng.choice(SYSTEMS), physical=True), op='xcut', kind='forms-sdvpn'))
+    ks = [-200, -100, -33, -10, 10, 33, 100, 200]
+    for _ in range(3 * big):
+        sp = gamma_part(delta=rng.random() < 0.5)
+        cases.append({'op': 'xcut', 'kind': 'scale-gamma', 'spec': sp, 'sub': gen_gamma_sub(rng, sp, small=True), 'k': rng.choice(ks), 'j': rng.choice(ks)})
+    for _ in range(3 * big):
+        cases.append(dict(sdvpn_part(rng.choice(iso), dyadic=False), op='xcut', kind='scale-sdvpn', k=rng.choice(ks), j=rng.choice(ks)))
+    for _ in range(big):
+        cases.append(dict(sdvpn_part(rng.choice(SYSTEMS)), op='xcut', kind='falsy'))
+        cases.append(dict(sdvpn_part(rng.choice(SYSTEMS)), op='xcut', kind='order', gspec=gamma_part(delta=True), first=gamma_part()))
+        cases.append(dict(sdvpn_part(rng.choice(SYSTEMS)), op='xcut', kind='io', gspec=gamma_part(delta=True), first=gamma_part()))
+    for _ in range(2 * big):
+        part = sdvpn_part(rng.choice(SYSTEMS), physical=True, dyadic=False)
+        v, _ = mk_volterra(part['system'])
+        pn0 = am.defect.SDVPN(volterra=v, gamma=mk_gamma(part['spec']))
+        steps = []
+        for i in range(rng.randint(2, 3)):
+            x2, d2 = _profile_json(rng, pn0, dyadic=False, n=(len(part['x']) if (i and rng.random() < 0.5) else rng.randint(6, 9)))
+            shift = [cm.dyadic(rng, -2, 2, 3), 0.0, cm.dyadic(rng, -2, 2, 3)]
+            d2 = (np.array(d2) + np.array(shift)).tolist()
+            which = 'xd' if (i == 0 or len(x2) != len(steps[-1]['_n'])) else rng.choice(['xd', 'd', 'none'])
+            steps.append({'x': x2 if 'x' in which else None, 'd': d2 if 'd' in which else None, '_n': x2 if 'x' in which else steps[-1]['_n'],
+                          'method': rng.choice(['Nelder-Mead', 'Powell', 'L-BFGS-B']), 'options': {'maxiter': rng.choice([1, 3])}})
+        for s_ in steps:
+            s_.pop('_n')
+        cases.append(dict(part, op='xcut', kind='twice', steps=steps))
+    all_orders = [['delta', 'E'], ['E', 'delta'], ['delta-nearest', 'E-nearest', 'delta', 'E'], ['E-pos', 'delta-pos', 'delta', 'E'], ['delta-pos', 'delta', 'E-nearest', 'E']]
+    for _ in range(2 * big):
+        specs = gen_reload_specs(rng, steps=rng.choice([1, 2]))
+        for s_ in specs:
+            if s_['delta'] is None:
+                s_['delta'] = [cm.dyadic(rng, -0.5, 0.5, 4) for _ in s_['a1']]
+                # equal rows for the duplicated edge
+                seen = {}
+                for i_, (a, b_) in enumerate(zip(s_['a1'], s_['a2'])):
+                    key = (round(a % 1.0, 9) % 1.0, round(b_ % 1.0, 9) % 1.0)
+                    s_['delta'][i_] = seen.setdefault(key, s_['delta'][i_])
+        cases.append({'op': 'xcut', 'kind': 'lazy', 'specs': specs, 'hows': [gen_reload_how(rng) for _ in specs[1:]], 'orders': rng.sample(all_orders, 3)})
+    return cases
+
+
 CHECKS = {'gamma': chk_gamma, 'gseq': chk_gseq, 'sdvpn': chk_sdvpn, 'elastic': chk_elastic, 'solve': chk_solve, 'halfwidth': chk_halfwidth,
-          'arctan': chk_arctan}
+          'arctan': chk_arctan, 'xcut': chk_xcut}
 
 
 def run_case(ctx, case):
@@ -2622,6 +4336,14 @@ def search(ctx, broken):
     for sc in scans:
         run_case(ctx, dict(sc, op='halfwidth'))
     ctx.extra['t_search_halfwidth_s'] = round(time.time() - t2, 2)
+    # ---- cross-cutting classes: working units, aliasing, input forms, scales, falsy values, positional order, file-like
+    #      models, repeated solves, observation order
+    t3 = time.time()
+    for case in gen_xcut_cases(ctx, rng, broken):
+        tk = time.time()
+        run_case(ctx, case)
+        ctx.extra['t_xcut_' + case['kind'] + '_s'] = round(ctx.extra.get('t_xcut_' + case['kind'] + '_s', 0.0) + time.time() - tk, 2)
+    ctx.extra['t_search_xcut_s'] = round(time.time() - t3, 2)
     for it in range(ctx.n(20, 200)):
         n = rng.randint(3, 12)
         dx = rng.choice([0.25, 0.5, 0.1, 0.3])
